@@ -1,5 +1,6 @@
 #!/usr/bin/env python3
-"""Tie A expression translator: pure scalar Rust function bodies -> Gallina terms over `Ops T` (Base/Ops.v).
+"""Tie A expression translator: pure scalar Rust function bodies (class Translator) and the simple loops of the crate's
+numerical routines (class LoopTranslator, described at the end) -> Gallina terms over `Ops T` (Base/Ops.v).
 
 It parses a small subset of Rust and RAISES `Unsupported` (with file:line:col and the offending text) on
 anything else; it never guesses.  The subset:
@@ -39,6 +40,40 @@ Rendering (same operation order as the source, fully parenthesised prefix applic
   translated; used for constructors whose struct literal builds cached sub-samplers).
 Documented rewriting rule (follows what rustc emits, as the hand models record):
   R1  `2_f64.powf(e)` / `2f64.powf(e)` / `(2.0_f64).powf(e)`  ->  f1 O Exp2 e      (rustc/LLVM turns pow(2, x) into exp2(x))
+
+STATEMENT LEVEL (class LoopTranslator; the class Translator above is unchanged and still refuses all of this).
+The simple loops the crate's numerical routines are made of, rendered over lists (Base/RsExpr.v, characterised in
+Proofs/RsExprLemmas.v); everything else still raises with file:line:col:
+  types   f64 -> T ; usize / u64 / .. and i32 / i64 / .. -> Z ; bool ; `&[f64]`, `Vec<f64>`, `[f64; N]` (and `Vector` by the
+          target's table) -> list T ; tuples ; `Option<..>` parameters ; a generic `F: Fn(f64) -> f64` -> T -> T
+  state   `let mut x = e;`, `let (a, mut b, _) = e;`, `x = e;`, `x += e;` (`-= *= /=`), `v[i] = e;`, `v[i] += e;`, `v.push(e);`,
+          `v.extend(w);`, `v.reverse();`, `self.f = e;` (a `&mut self` method returns its fields): each assignment REBINDS
+          the variable (`let x := .. in`); an `if` whose branches only assign is `let '(x, y) := if c then .. else .. in`,
+          otherwise the rest of the block continues inside every branch that does not leave
+  loops   `for pat in ITER { body }` with ITER = `a..b` | `a..=b` | `x.iter()` | `x` | `.zip(..)` | `.enumerate()` | `.rev()` |
+          `.take(n)` | `.skip(n)` | `.map(|p| e)`: a fold over the list of ITER whose state is the tuple of the variables the
+          body assigns:  fold_left (total body) | rs_fold_opt (the body can panic) | rs_loop with rs_next / rs_break /
+          rs_return / rs_panic (the body has `break` / `return`; `continue` ends a pass in all three)
+          `while i < b { ..; i += 1; }` with an integer counter only changed by the last statement, a bound the body does
+          not change and no `continue`: rule R2, the fold over `i..b` with i kept in the state
+  chains  `.iter() .into_iter() .cloned() .copied() .collect() .to_vec() .clone()` (identity on lists), `.map(|p| e)`
+          (map | rs_map_opt), `.sum()` (rs_iter_sum: from -0.0), `.product()`, `.fold(init, |a, p| e)` / `.fold(init, f64::max)`,
+          `.len()` (rs_len), closures with tuple patterns and block bodies, `f64::min/max(a, b)`, `t.0`, `f64::NAN / MAX / MIN /
+          INFINITY / NEG_INFINITY`, `vec![c; n]` / `Vector::ones(n)` / `zeros(n)` (rs_vec_alloc: the capacity check of
+          8-byte elements), `Vec::with_capacity(n)` / `Vec::new()` ([]), `Vector * f64` (element-wise)
+  panics  None: `assert!`, `assert_eq!`, `assert_ne!`, `panic!`, `x[i]` (rs_get), `&x[a..b]` / `[a..]` / `[..b]` (rs_slice*),
+          `v[i] = e` (rs_set), integer `/` and `%` by a non-literal (rs_idiv / rs_irem), calls of functions that can panic.
+          A sub-expression that can panic is bound first (`let* g := rs_get x i in ..`), in evaluation order; under `&&` / `||`,
+          in a value `if` and in a closure it stays inside that operand / branch / closure.  A function none of whose
+          constructs can panic is total (no option).
+  usize   `a - b` on unsigned integers is rs_usub a b: the release build's wrap-around modulo 2^64 (a debug build panics
+          there); `+`, `*` and integer casts do not wrap (lengths are below 2^64)
+  items   generics with `where F: Fn(..) -> ..`, `#[cfg(feature = "blas" | "lapack")] { .. }` blocks are not compiled in the
+          verified build and are skipped unread, `#[cfg(not(feature = ..))] { .. }` blocks are the code; `match` is parsed as
+          an opaque node that every translator refuses, so that `fragment(..)` can translate the statements around it
+  calls   cfg.calls: abstract parameters (result type ('opt', t) = can panic); cfg.defs: functions translated earlier
+          (every translated function registers itself: `mean(x)` -> `src_mean O sum_ x`, `self.m(a)` with the fields read)
+  R2  `let mut i = a; while i < b { ..; i += 1; }`  ->  fold over rs_range_excl i b, the loop variable shadowing the state's i
 """
 import os, re, sys
 from fractions import Fraction
@@ -70,8 +105,8 @@ def blank_comments(src):
     return "".join(out)
 
 
-PUNCT = ["..=", "<<=", ">>=", "...", "::", "->", "=>", "<=", ">=", "==", "!=", "||", "&&", "..", "+=", "-=", "*=", "/=",
-         "<<", ">>"] + list("()[]{},;.&=:<>!+-*/%|#'$?^@~")
+PUNCT = ["..=", "<<=", "...", "::", "->", "=>", "<=", ">=", "==", "!=", "||", "&&", "..", "+=", "-=", "*=", "/=",
+         "<<"] + list("()[]{},;.&=:<>!+-*/%|#'$?^@~")
 INT_SUFFIX = ("usize", "isize", "u64", "i64", "u32", "i32", "u16", "i16", "u8", "i8", "u128", "i128")
 NUM = re.compile(r"\d[\d_]*")
 
@@ -194,18 +229,33 @@ class Parser:
         while True:
             t = self.peek()
             if t.kind == "eof": raise self.fail(t, "unterminated type")
-            if depth == 0 and t.kind == "p" and t.text in stops: break
-            if t.kind == "p" and t.text in "([<": depth += 1
-            if t.kind == "p" and t.text in ")]>":
+            if depth == 0 and t.kind in ("p", "id") and t.text in stops: break
+            if t.kind == "p" and t.text in ("(", "[", "<"): depth += 1
+            if t.kind == "p" and t.text in (")", "]", ">"):
                 if depth == 0: break
                 depth -= 1
+            if parts and t.kind == "id" and self.t[self.i - 1].kind == "id": parts.append(" ")
             parts.append(t.text); self.next()
         return "".join(parts)
 
     def parse_fn(self):
         kw = self.expect("fn"); name = self.next()
         if name.kind != "id": raise self.fail(name, "function name expected")
-        if self.at("<"): raise self.fail(self.peek(), "generic functions are outside the subset")
+        generics = []
+        if self.at("<"):
+            # `<F>` / `<T: Bound, U>`: the names are recorded, the bounds are read from the `where` clause or here as text
+            lt = self.next(); depth = 1; cur = []
+            while depth:
+                u = self.next()
+                if u.kind == "eof": raise self.fail(lt, "unterminated generics")
+                if u.kind == "p" and u.text == "<": depth += 1
+                elif u.kind == "p" and u.text == ">": depth -= 1
+                elif u.kind == "p" and u.text == "->": pass
+                if depth == 0: break
+                if depth == 1 and u.kind == "p" and u.text == ",":
+                    generics.append("".join(cur)); cur = []
+                else: cur.append(u.text)
+            if cur: generics.append("".join(cur))
         self.expect("(")
         params, has_self = [], False
         while not self.at(")"):
@@ -225,61 +275,123 @@ class Parser:
         ret = None
         if self.at("->"):
             self.next(); ret = self.parse_type({"{", "where"})
+        where = ""
+        if self.at("where"):
+            self.next(); parts = []
+            while not self.at("{"):
+                u = self.next()
+                if u.kind == "eof": raise self.fail(u, "function body expected")
+                parts.append(u.text)
+            where = "".join(parts)
         if not self.at("{"): raise self.fail(self.peek(), "function body expected")
         body = self.parse_block()
-        return N("fn", kw.pos, body.end, name=name.text, params=params, has_self=has_self, ret=ret, body=body)
+        return N("fn", kw.pos, body.end, name=name.text, params=params, has_self=has_self, ret=ret, body=body,
+                 generics=generics, where=where)
 
     # -- blocks and statements
+    def parse_pattern(self):
+        """`name` | `mut name` | `_` | `&pat` | `(pat, ..)`  ->  ("var", name, mut) | ("wild",) | ("tup", [..])"""
+        t = self.peek()
+        if self.at("&"): self.next(); return self.parse_pattern()
+        if self.at("("):
+            self.next(); items = []
+            while not self.at(")"):
+                items.append(self.parse_pattern())
+                if self.at(","): self.next()
+                elif not self.at(")"): raise self.fail(self.peek(), "expected `,` or `)` in a pattern")
+            self.next()
+            return ("tup", items)
+        mut = False
+        if self.at("mut"): self.next(); mut = True
+        v = self.next()
+        if v.kind != "id": raise self.fail(v, "pattern: a name, `_` or a tuple of those expected")
+        if self.at("(") or self.at("{") or self.at("::"): raise self.fail(v, "enum / struct patterns are outside the subset")
+        if v.text == "_": return ("wild",)
+        return ("var", v.text, mut)
+
+    @staticmethod
+    def pattern_names(pat):
+        if pat[0] == "var": return [pat[1]]
+        if pat[0] == "tup": return [n for q in pat[1] for n in Parser.pattern_names(q)]
+        return []
+
+    def parse_attr(self):
+        """`#[..]` before a statement: returns 'keep' | 'drop' (cfg on the crate's only feature switch, `blas`, which the
+           verified build leaves off) | 'ignore' (lints / inline hints)"""
+        h = self.expect("#")
+        if not self.at("["): raise self.fail(h, "attribute expected")
+        start = self.i; self.skip_balanced()
+        text = "".join(t.text for t in self.t[start + 1:self.i - 1])
+        if text in ('cfg(feature="blas")', 'cfg(feature="lapack")'): return "drop"
+        if text in ('cfg(not(feature="blas"))', 'cfg(not(feature="lapack"))'): return "keep"
+        if text.startswith("cfg"): raise self.fail(h, "conditional compilation other than on the `blas` / `lapack` features is outside the subset")
+        return "ignore"
+
     def parse_block(self):
         lb = self.expect("{"); stmts, tail = [], None
         while not self.at("}"):
             t = self.peek()
             if t.kind == "eof": raise self.fail(lb, "unterminated block")
             if self.at(";"): self.next(); continue
+            if self.at("#"):
+                what = self.parse_attr()
+                if what == "ignore": continue
+                if not self.at("{"): raise self.fail(self.peek(), "a `#[cfg(..)]` attribute is only supported on a block")
+                if what == "drop": self.skip_balanced(); continue      # not compiled: not looked at
+                blk = self.parse_block()
+                # the kept block: its statements continue the enclosing block (a block that ends the enclosing one gives its value)
+                if self.at("}"):
+                    stmts.extend(blk.stmts); tail = blk.tail
+                else:
+                    if blk.tail is not None: raise self.fail(blk, "a `#[cfg]` block with a value in the middle of a block")
+                    stmts.extend(blk.stmts)
+                continue
             if self.at("let"):
                 self.next()
-                mut = False
-                if self.at("mut"): self.next(); mut = True
-                nm = self.next()
-                if nm.kind != "id": raise self.fail(nm, "`let` with a pattern is outside the subset")
+                if self.at("(") or self.at("&"):
+                    pat = self.parse_pattern(); nm_text, mut = None, False
+                else:
+                    mut = False
+                    if self.at("mut"): self.next(); mut = True
+                    nm = self.next()
+                    if nm.kind != "id": raise self.fail(nm, "`let` with a pattern is outside the subset")
+                    nm_text = nm.text
+                    pat = ("wild",) if nm_text == "_" else ("var", nm_text, mut)
                 ty = None
                 if self.at(":"):
                     self.next(); ty = self.parse_type({"=", ";"})
                 self.expect("=")
                 e = self.parse_expr()
                 semi = self.expect(";")
-                stmts.append(N("let", t.pos, semi.end, name=nm.text, ty=ty, e=e, mut=mut)); continue
+                stmts.append(N("let", t.pos, semi.end, name=nm_text, ty=ty, e=e, mut=mut, pattern=pat)); continue
             if t.kind == "id" and t.text == "for":
-                self.next(); pat = []
-                if self.at("("):
-                    self.next()
-                    while not self.at(")"):
-                        v = self.next()
-                        if v.kind != "id": raise self.fail(v, "loop pattern: names expected")
-                        pat.append(v.text)
-                        if self.at(","): self.next()
-                    self.next()
-                else:
-                    v = self.next()
-                    if v.kind != "id": raise self.fail(v, "loop variable expected")
-                    pat.append(v.text)
+                self.next()
+                pattern = self.parse_pattern()
+                pat = self.pattern_names(pattern)
                 self.expect("in")
                 it = self.parse_expr(nostruct=True)
                 body = self.parse_block()
-                stmts.append(N("for", t.pos, body.end, pat=pat, iter=it, body=body)); continue
-            if t.kind == "id" and t.text in ("while", "match", "unsafe", "fn", "struct", "impl", "use", "const", "static"):
+                stmts.append(N("for", t.pos, body.end, pat=pat, pattern=pattern, iter=it, body=body)); continue
+            if t.kind == "id" and t.text == "while":
+                self.next()
+                if self.at("let"): raise self.fail(self.peek(), "`while let` is outside the subset")
+                c = self.parse_expr(nostruct=True)
+                body = self.parse_block()
+                stmts.append(N("while", t.pos, body.end, cond=c, body=body)); continue
+            if t.kind == "id" and t.text in ("unsafe", "fn", "struct", "impl", "use", "const", "static"):
                 raise self.fail(t, f"`{t.text}` is outside the subset")
             e = self.parse_expr(stmt=True)
             if self.peek().kind == "p" and self.peek().text in ("+=", "-=", "*=", "/="):
                 op = self.next(); rhs = self.parse_expr(); semi = self.expect(";")
                 stmts.append(N("opassign", e.pos, semi.end, op=op.text[0], target=e, e=rhs)); continue
-            if self.at("=") :
-                raise self.fail(self.peek(), "assignment (mutable state) is outside the subset")
+            if self.at("="):
+                self.next(); rhs = self.parse_expr(); semi = self.expect(";")
+                stmts.append(N("assign", e.pos, semi.end, target=e, e=rhs)); continue
             if self.at(";"):
                 semi = self.next(); stmts.append(N("semi", e.pos, semi.end, e=e))
             elif self.at("}"):
                 tail = e
-            elif e.kind in ("if", "block"):
+            elif e.kind in ("if", "block", "iflet", "match"):
                 stmts.append(N("semi", e.pos, e.end, e=e))
             else:
                 raise self.fail(self.peek(), "expected `;` or `}`")
@@ -287,9 +399,18 @@ class Parser:
         return N("block", lb.pos, rb.end, stmts=stmts, tail=tail)
 
     # -- expressions
+    def starts_expr(self):
+        t = self.peek()
+        if t.kind in ("float", "int", "id", "str"): return not (t.kind == "id" and t.text in ("as", "in", "else"))
+        return t.kind == "p" and t.text in ("(", "-", "!", "&", "*", "|", "||", "[")
+
     def parse_expr(self, prec=0, nostruct=False, stmt=False):
+        if prec == 0 and (self.at("..") or self.at("..=")):
+            op = self.next(); hi = None
+            if self.starts_expr() and not (nostruct and self.at("{")): hi = self.parse_expr(1, nostruct)
+            return N("range", op.pos, hi.end if hi else op.end, lo=None, hi=hi, incl=(op.text == "..="))
         lhs = self.parse_unary(nostruct)
-        if stmt and lhs.kind in ("if", "block") and not self.at("."):
+        if stmt and lhs.kind in ("if", "block", "iflet", "match") and not self.at("."):
             # expression statement ending in a block: not continued by a binary operator
             return lhs
         while True:
@@ -302,12 +423,17 @@ class Parser:
             if t.kind != "p" or t.text not in BINPREC: break
             p = BINPREC[t.text]
             if p < prec: break
-            if t.text in ("^", "<<", ">>", "%"): raise self.fail(t, f"operator `{t.text}` is outside the subset")
+            if t.text in ("^", "<<", ">>"): raise self.fail(t, f"operator `{t.text}` is outside the subset")
             self.next()
             rhs = self.parse_expr(p + 1, nostruct)
             if p == 3 and self.peek().kind == "p" and BINPREC.get(self.peek().text) == 3:
                 raise self.fail(self.peek(), "chained comparison")
             lhs = N("bin", lhs.pos, rhs.end, op=t.text, a=lhs, b=rhs)
+        if prec == 0 and (self.at("..") or self.at("..=")):
+            op = self.next(); hi = None
+            if self.starts_expr() and not (nostruct and self.at("{")): hi = self.parse_expr(1, nostruct)
+            if op.text == "..=" and hi is None: raise self.fail(op, "`a ..=` without an upper end")
+            return N("range", lhs.pos, hi.end if hi else op.end, lo=lhs, hi=hi, incl=(op.text == "..="))
         return lhs
 
     def parse_unary(self, nostruct):
@@ -331,16 +457,32 @@ class Parser:
         while True:
             if self.at(".") :
                 dot = self.next(); nm = self.next()
-                if nm.kind == "int": raise self.fail(nm, "tuple fields are outside the subset")
+                if nm.kind == "int" and not nm.suffix:
+                    e = N("tfield", e.pos, nm.end, recv=e, idx=int(nm.text)); continue
+                if nm.kind in ("int", "float"): raise self.fail(nm, "nested tuple fields are outside the subset")
                 if nm.kind != "id": raise self.fail(nm, "method or field name expected")
-                if self.at("::"): raise self.fail(self.peek(), "turbofish is outside the subset")
+                turbofish = None
+                if self.at("::"):
+                    self.next(); self.expect("<"); turbofish = self.parse_type(set()); self.expect(">")
+                    if not self.at("("): raise self.fail(self.peek(), "method call expected after a turbofish")
                 if self.at("("):
                     args, end = self.parse_args()
-                    e = N("mcall", e.pos, end, recv=e, name=nm.text, args=args)
+                    e = N("mcall", e.pos, end, recv=e, name=nm.text, args=args, turbofish=turbofish)
                 else:
                     e = N("field", e.pos, nm.end, recv=e, name=nm.text)
             elif self.at("["):
-                raise self.fail(self.peek(), "indexing (slices) is outside the subset")
+                lb = self.next()
+                if self.at("["):
+                    # `m[[i, j]]`: matrix entry
+                    self.next(); items = []
+                    while not self.at("]"):
+                        items.append(self.parse_expr())
+                        if self.at(","): self.next()
+                    self.next(); rb = self.expect("]")
+                    e = N("index", e.pos, rb.end, recv=e, idx=N("array", lb.pos, rb.end, items=items)); continue
+                idx = self.parse_expr()
+                rb = self.expect("]")
+                e = N("index", e.pos, rb.end, recv=e, idx=idx)
             elif self.at("?"):
                 raise self.fail(self.peek(), "`?` is outside the subset")
             else:
@@ -364,30 +506,45 @@ class Parser:
             self.next()
             if self.at(")"): raise self.fail(t, "unit value is outside the subset")
             e = self.parse_expr()
-            if self.at("..=") or self.at(".."):
-                op = self.next()
-                if op.text == "..": raise self.fail(op, "half-open range is outside the subset (only `a ..= b`)")
-                hi = self.parse_expr()
+            if self.at(","):
+                items = [e]
+                while self.at(","):
+                    self.next()
+                    if self.at(")"): break
+                    items.append(self.parse_expr())
                 rp = self.expect(")")
-                return N("range", t.pos, rp.end, lo=e, hi=hi)
-            if self.at(","): raise self.fail(self.peek(), "tuples are outside the subset")
+                return N("tuple", t.pos, rp.end, items=items)
             rp = self.expect(")")
             return N("paren", t.pos, rp.end, e=e)
+        if t.kind == "p" and t.text == "[":
+            self.next(); items = []
+            while not self.at("]"):
+                items.append(self.parse_expr())
+                if self.at(";"):
+                    self.next(); n = self.parse_expr(); rb = self.expect("]")
+                    return N("vecrep", t.pos, rb.end, e=items[0], n=n)
+                if self.at(","): self.next()
+            rb = self.next()
+            return N("array", t.pos, rb.end, items=items)
         if t.kind == "p" and t.text == "{":
             return self.parse_block()
         if t.kind == "p" and t.text == "|":
-            self.next(); nm = self.next()
-            if nm.kind != "id": raise self.fail(nm, "closure parameter: a single name expected")
+            self.next(); params = []
+            while not self.at("|"):
+                params.append(self.parse_pattern())
+                if self.at(":"): self.next(); self.parse_type({",", "|"})
+                if self.at(","): self.next()
             self.expect("|")
             body = self.parse_expr()
-            return N("closure", t.pos, body.end, param=nm.text, body=body)
+            one = params[0][1] if len(params) == 1 and params[0][0] == "var" else None
+            return N("closure", t.pos, body.end, param=one, params=params, body=body)
         if t.kind == "p" and t.text == "||":
             raise self.fail(t, "closure without parameters is outside the subset")
         if t.kind == "id":
             if t.text == "if": return self.parse_if()
             if t.text == "return":
                 self.next()
-                if self.at(";") or self.at("}"): raise self.fail(t, "`return` without a value")
+                if self.at(";") or self.at("}"): return N("return", t.pos, t.end, e=None)
                 e = self.parse_expr()
                 return N("return", t.pos, e.end, e=e)
             if t.text == "loop":
@@ -395,23 +552,38 @@ class Parser:
                 return N("loop", t.pos, body.end, body=body)
             if t.text == "break":
                 self.next()
-                if self.at(";") or self.at("}"): raise self.fail(t, "`break` without a value is outside the subset")
+                if self.at(";") or self.at("}"): return N("break", t.pos, t.end, e=None)
                 e = self.parse_expr()
                 return N("break", t.pos, e.end, e=e)
-            if t.text in ("match", "while", "for", "unsafe", "move", "continue"):
+            if t.text == "continue":
+                self.next(); return N("continue", t.pos, t.end)
+            if t.text == "match":
+                # parsed as an opaque node (scrutinee + skipped arms): every translator refuses it where it meets it, so that
+                # the statements around a `match` can still be translated as a fragment
+                self.next(); scrut = self.parse_expr(nostruct=True)
+                if not self.at("{"): raise self.fail(t, "`match` arms expected")
+                self.skip_balanced()
+                return N("match", t.pos, self.t[self.i - 1].end, scrut=scrut)
+            if t.text in ("while", "for", "unsafe", "move"):
                 raise self.fail(t, f"`{t.text}` is outside the subset")
             # path
             self.next(); segs = [t.text]; end = t.end
             while self.at("::"):
-                self.next(); s = self.next()
+                self.next()
+                if self.at("<"):       # `Vec::<f64>::new`
+                    self.next(); self.parse_type(set()); self.expect(">"); continue
+                s = self.next()
                 if s.kind != "id": raise self.fail(s, "path segment expected")
                 segs.append(s.text); end = s.end
             if self.at("!"):
                 bang = self.next()
                 if not (self.at("(") or self.at("[") or self.at("{")): raise self.fail(bang, "macro arguments expected")
-                if segs[-1] in ("assert", "debug_assert"):
+                if segs[-1] in ("assert", "debug_assert", "assert_eq", "assert_ne"):
                     self.expect("(")
                     c = self.parse_expr()
+                    if segs[-1] in ("assert_eq", "assert_ne"):
+                        self.expect(","); c2 = self.parse_expr()
+                        c = N("bin", c.pos, c2.end, op=("==" if segs[-1] == "assert_eq" else "!="), a=c, b=c2)
                     depth = 1
                     while depth:     # skip the message arguments
                         u = self.next()
@@ -423,6 +595,8 @@ class Parser:
                 if segs[-1] in ("panic", "unreachable", "unimplemented", "todo"):
                     self.skip_balanced()
                     return N("panic", t.pos, self.t[self.i - 1].end)
+                if segs == ["vec"] and self.at("["):
+                    return self.parse_primary(nostruct)      # `vec![c; n]` / `vec![a, b]`: the array forms
                 raise self.fail(t, f"macro `{segs[-1]}!` is outside the subset")
             if self.at("("):
                 args, end = self.parse_args()
@@ -449,13 +623,21 @@ class Parser:
 
     def parse_if(self):
         kw = self.expect("if")
-        if self.at("let"): raise self.fail(self.peek(), "`if let` is outside the subset")
+        iflet = None
+        if self.at("let"):
+            # `if let Some(x) = e { .. } else { .. }`
+            lt = self.next(); ctor = self.next()
+            if ctor.kind != "id" or ctor.text != "Some" or not self.at("("): raise self.fail(lt, "`if let` is only supported as `if let Some(x) = e`")
+            self.next(); v = self.next(); self.expect(")"); self.expect("=")
+            if v.kind != "id": raise self.fail(v, "`if let Some(x)`: a name expected")
+            iflet = v.text
         c = self.parse_expr(nostruct=True)
         th = self.parse_block(); el = None; end = th.end
         if self.at("else"):
             self.next()
             el = self.parse_if() if self.at("if") else self.parse_block()
             end = el.end
+        if iflet is not None: return N("iflet", kw.pos, end, name=iflet, e=c, th=th, el=el)
         return N("if", kw.pos, end, cond=c, th=th, el=el)
 
 
@@ -705,7 +887,13 @@ class Translator:
             if ta != tb: raise self.fail(e, "branches of different types")
             return f"if {c} then {a} else {b}", ta
         if k == "block": return self.value_block(e, env)
-        if k == "range": raise self.fail(e, "a range may only be used as `(a ..= b).contains(&x)` or `(a ..= b).map(|i| ..).sum()`")
+        if k == "range":
+            if not e.incl: raise self.fail(e, "half-open range is outside the subset (only `a ..= b`)")
+            raise self.fail(e, "a range may only be used as `(a ..= b).contains(&x)` or `(a ..= b).map(|i| ..).sum()`")
+        if k == "index": raise self.fail(e, "indexing (slices) is outside the subset")
+        if k == "match": raise self.fail(e, "`match` is outside the subset")
+        if k == "tuple": raise self.fail(e, "tuples are outside the subset")
+        if k == "tfield": raise self.fail(e, "tuple fields are outside the subset")
         if k == "return": raise self.fail(e, "`return` inside an expression")
         if k in ("assert", "panic"): raise self.fail(e, "panic inside an expression")
         if k == "closure": raise self.fail(e, "closure outside `.map(..)`")
@@ -722,6 +910,7 @@ class Translator:
         return "".join(lets) + s, t
 
     def let(self, s, env):
+        if s.name is None: raise self.fail(s, "`let` with a pattern is outside the subset")
         v, t = self.expr(s.e, env)
         if s.ty is not None and self.ty_of_rust(s.ty, s) != t: raise self.fail(s, "declared type differs from the inferred one")
         nm = self.ident(s.name, env, s.name)
@@ -779,7 +968,9 @@ class Translator:
         name, args = e.name, e.args
         recv = self.strip(e.recv)
         # ranges
+        if getattr(e, "turbofish", None) is not None: raise self.fail(e, "turbofish is outside the subset")
         if recv.kind == "range":
+            if not recv.incl or recv.lo is None or recv.hi is None: raise self.fail(recv, "half-open range is outside the subset (only `a ..= b`)")
             if name == "contains" and len(args) == 1:
                 lo, tl = self.expr(recv.lo, env); hi, th = self.expr(recv.hi, env); x, tx = self.expr(args[0], env)
                 if not (tl == th == tx) or tl == "b": raise self.fail(e, "range and argument of different types")
@@ -791,6 +982,8 @@ class Translator:
             if inner.kind == "mcall" and inner.name == "map" and len(inner.args) == 1 and inner.args[0].kind == "closure" \
                and self.strip(inner.recv).kind == "range":
                 rg = self.strip(inner.recv); cl = inner.args[0]
+                if not rg.incl or rg.lo is None or rg.hi is None: raise self.fail(rg, "half-open range is outside the subset (only `a ..= b`)")
+                if cl.param is None: raise self.fail(cl, "closure parameter: a single name expected")
                 lo, tl = self.expr(rg.lo, env); hi, th = self.expr(rg.hi, env)
                 if tl != "i" or th != "i": raise self.fail(rg, "only integer ranges can be summed over")
                 env2 = dict(env); v = self.ident(cl.param, env, cl.param); env2[cl.param] = (v, "i")
@@ -918,7 +1111,9 @@ class Translator:
     def tail_expr(self, e, env):
         k = e.kind
         if k == "paren": return self.tail_expr(e.e, env)
-        if k == "return": return self.tail_expr(e.e, env)
+        if k == "return":
+            if e.e is None: raise self.fail(e, "`return` without a value")
+            return self.tail_expr(e.e, env)
         if k == "panic": return self.none()
         if k == "block": return self.tail_block(e.stmts, e.tail, env, e)
         if k == "if":
@@ -940,6 +1135,8 @@ class Translator:
                 return self.tail_block(rest, tail, env, where)
             if s.kind == "let":
                 return self.let(s, env) + self.tail_block(rest, tail, env, where)
+            if s.kind == "while": raise self.fail(s, "`while` is outside the subset")
+            if s.kind == "assign": raise self.fail(s, "assignment (mutable state) is outside the subset")
             if s.kind in ("for", "opassign"):
                 raise self.fail(s, "loops / mutation are only supported as `let mut acc = init; for (idx, val) in ARRAY.iter().enumerate() { acc += expr; }`")
             e = s.e
@@ -948,6 +1145,7 @@ class Translator:
                 return f"if {c} then {self.tail_block(rest, tail, env, where)} else {self.none()}"
             if e.kind in ("panic", "return"):
                 return self.tail_expr(e, env)
+            if e.kind == "match": raise self.fail(e, "`match` is outside the subset")
             if e.kind == "if":
                 c = self.cond(e.cond, env)
                 branches = [e.th] + ([e.el] if e.el is not None else [])
@@ -987,7 +1185,7 @@ class Translator:
         if draw not in self.cfg.draws: raise self.fail(dl.e, "not one of the target's random draws " + repr(self.cfg.draws))
         th = cf.th
         brk = th.stmts[0].e if (len(th.stmts) == 1 and th.tail is None and th.stmts[0].kind == "semi") else (th.tail if not th.stmts else None)
-        if cf.el is not None or brk is None or brk.kind != "break": raise self.fail(cf, bad)
+        if cf.el is not None or brk is None or brk.kind != "break" or brk.e is None: raise self.fail(cf, bad)
         bv = self.strip(brk.e)
         if bv.kind != "path" or bv.segs != [dl.name]: raise self.fail(brk, bad)
         if self.accept is not None: raise self.fail(lp, "second rejection loop in one function")
@@ -1078,6 +1276,1083 @@ class Translator:
         return Translated(coq_name, text, sig, mode, list(self.used_calls), list(self.notes))
 
 
+# ----------------------------------------------------------------------------------------------- loops, slices, iterator chains
+class NeedMode(Exception):
+    """internal: the construct being rendered needs a richer context (a panic in a loop rendered as a pure fold, ..)"""
+    def __init__(self, what): self.what = what
+
+
+LOOP_RESERVED = {
+    "rs_range_excl", "rs_len", "rs_usub", "rs_idiv", "rs_irem", "rs_get", "rs_set", "rs_slice", "rs_slice_from", "rs_slice_to",
+    "rs_vec_rep", "rs_vec_alloc", "rs_enumerate", "rs_take", "rs_skip", "rs_fold_opt", "rs_map_opt", "rs_flow", "rs_next", "rs_break", "rs_return",
+    "rs_panic", "rs_loop", "rs_iter_product", "rs_f64_nan", "rs_f64_max", "rs_f64_min", "rs_f64_infinity", "rs_f64_neg_infinity",
+    "fold_left", "combine", "rev", "length", "bind", "fst", "snd", "nth_error", "repeat", "tt", "app", "unit", "firstn", "skipn",
+    "upd", "guard", "map2", "pair", "nil", "cons",
+}
+
+
+def is_int(t): return t in ("i", "si", "il")
+
+
+def int_join(a, b):
+    """type of an arithmetic result on two integers: signed if either is, unsigned if either is known unsigned, else unknown"""
+    if "si" in (a, b): return "si"
+    if "i" in (a, b): return "i"
+    return "il"
+
+
+class Ctx:
+    """what the end of a block / return / break / continue / a panic mean where a statement sequence is rendered
+       kind 'fn'   : mode 'total' (value) | 'opt' (option value)
+       kind 'loop' : mode 'pure' (next state) | 'opt' (option state) | 'flow' (rs_flow state result); state = names
+       kind 'merge': mode 'pure' | 'opt'   (the branches of a statement-`if` that only update variables)"""
+
+    def __init__(self, tr, kind, mode, state=(), result=None):
+        self.tr, self.kind, self.mode, self.state, self.result = tr, kind, mode, list(state), result
+
+    def pack(self, env):
+        vs = [env[m][0] for m in self.state]
+        return "tt" if not vs else (vs[0] if len(vs) == 1 else "(" + ", ".join(vs) + ")")
+
+    def fall(self, env, val, where):
+        if self.kind == "fn":
+            return self.result(env, val, where)
+        if val is not None and val[1] != "unit": raise self.tr.fail(where, "a value at the end of a loop body / statement branch")
+        s = self.pack(env)
+        return {"pure": s, "opt": f"Some {s}", "flow": f"rs_next {s}"}[self.mode]
+
+    def ret(self, env, val, where):
+        if self.kind == "fn": return self.result(env, val, where)
+        if self.kind == "loop" and self.mode == "flow":
+            if val is None: raise self.tr.fail(where, "`return` without a value inside a loop")
+            self.tr.ret_seen(val[1], where)
+            return f"rs_return ({val[0]})"
+        raise NeedMode("flow")
+
+    def brk(self, env, where):
+        if self.kind == "loop" and self.mode == "flow": return f"rs_break {self.pack(env)}"
+        if self.kind == "fn": raise self.tr.fail(where, "`break` outside a loop")
+        raise NeedMode("flow")
+
+    def cont(self, env, where):
+        if self.kind == "loop": return self.fall(env, None, where)
+        if self.kind == "fn": raise self.tr.fail(where, "`continue` outside a loop")
+        raise NeedMode("flow")
+
+    def panic(self):
+        if self.mode == "opt": return "None"
+        if self.mode == "flow": return "rs_panic"
+        raise NeedMode("opt")
+
+    def bind(self, pat, opt, body):
+        if self.mode == "opt": return f"let* {pat.lstrip(chr(39))} := {opt} in {body}"
+        if self.mode == "flow": return f"match {opt} with Some {pat.lstrip(chr(39))} => {body} | None => rs_panic end"
+        raise NeedMode("opt")
+
+
+class LoopTranslator(Translator):
+    """statement-level translator: `let mut` accumulators, `for` loops over ranges / slices / zip / enumerate, counted
+       `while` loops, slice indexing and slicing, `Vec` results, iterator chains (`map`, `sum`, `product`, `fold`, `collect`),
+       tuples, early `return` / `break` / `continue`; rendered as `fold_left` / `rs_fold_opt` / `rs_loop` over lists.
+       Types: 'f' (T) | 'i' (unsigned integer, Z) | 'si' (signed integer, Z) | 'il' (integer of an unsuffixed literal, Z) | 'b' | 'unit' | ('list', t) | ('tup', (t..))
+              | ('fn', (t..), t) | ('opt', t)
+       cfg.calls : crate function -> (Gallina parameter, [arg types], result type)   (abstract, total; result ('opt', t) = can panic)
+       cfg.defs  : crate function -> (Gallina term, [arg types], result type, partial, used abstract parameters, self fields read)   (already translated)
+       Unsigned `a - b` is `rs_usub a b` (release build: wraps modulo 2^64); `+`, `*` and integer casts do not wrap."""
+
+    def __init__(self, module, config=None):
+        super().__init__(module, config)
+        self.binds = [[]]
+        self.gensym = 0
+        self.idents = set()
+        if not hasattr(self.cfg, "defs"): self.cfg.defs = {}
+
+    # ---- types
+    def cty(self, t):
+        if t == "f": return "T"
+        if is_int(t): return "Z"
+        if t == "b": return "bool"
+        if t == "unit": return "unit"
+        if t[0] == "list": return f"list {self.cty_a(t[1])}"
+        if t[0] == "tup": return "(" + " * ".join(self.cty_a(x) for x in t[1]) + ")"
+        if t[0] == "fn": return " -> ".join(self.cty_a(x) for x in list(t[1]) + [t[2]])
+        if t[0] == "opt": return f"option {self.cty_a(t[1])}"
+        raise Unsupported(f"internal: type {t!r}")
+
+    def cty_a(self, t):
+        s = self.cty(t)
+        return s if re.fullmatch(r"\w+|\(.*\)", s) else f"({s})"
+
+    def ty_of_rust(self, ty, node=None):
+        ty = re.sub(r"\bmut\s+", "", ty)
+        ty = ty.replace(" ", "")
+        ty = re.sub(r"'\w+", "", ty)
+        while ty.startswith("&"): ty = ty[1:]
+        if ty in self.cfg.param_types: return self.cfg.param_types[ty]
+        if ty in self.generic_bounds: return self.generic_bounds[ty]
+        if ty == "f64": return "f"
+        if ty in ("i32", "i64", "isize", "i16", "i8", "i128"): return "si"
+        if ty in INT_TYPES: return "i"
+        if ty == "bool": return "b"
+        m = re.fullmatch(r"\[(.*)\]", ty) or re.fullmatch(r"Vec<(.*)>", ty)
+        if m: return ("list", self.ty_of_rust(m.group(1), node))
+        m = re.fullmatch(r"\[(.*);\w+\]", ty)
+        if m: return ("list", self.ty_of_rust(m.group(1), node))
+        m = re.fullmatch(r"Option<(.*)>", ty)
+        if m: return ("opt", self.ty_of_rust(m.group(1), node))
+        if ty.startswith("(") and ty.endswith(")"):
+            parts, depth, cur = [], 0, ""
+            for ch in ty[1:-1]:
+                if ch in "([<": depth += 1
+                if ch in ")]>": depth -= 1
+                if ch == "," and depth == 0: parts.append(cur); cur = ""
+                else: cur += ch
+            if cur: parts.append(cur)
+            return ("tup", tuple(self.ty_of_rust(x, node) for x in parts))
+        msg = f"type `{ty}` is outside the subset"
+        raise (self.fail(node, msg) if node is not None else Unsupported(msg))
+
+    def ident(self, name, env=None, key=None):
+        nm = super().ident(name, env, key)
+        reserved = LOOP_RESERVED | {d[0].split()[0] for d in self.cfg.defs.values()}
+        while nm in reserved: nm += "_"
+        return nm
+
+    def fresh(self, base="g"):
+        while True:
+            self.gensym += 1
+            nm = f"{base}{self.gensym}"
+            if nm not in self.idents: return nm
+
+    # ---- scopes for hoisted partial sub-expressions
+    def scoped(self, thunk):
+        self.binds.append([])
+        try: r = thunk()
+        finally: bs = self.binds.pop()
+        return r, bs
+
+    @staticmethod
+    def bind_chain(binds, inner):
+        for pat, opt in reversed(binds): inner = f"let* {pat.lstrip(chr(39))} := {opt} in {inner}"
+        return inner
+
+    def hoist(self, opt, base="g"):
+        g = self.fresh(base)
+        self.binds[-1].append((g, opt))
+        return g
+
+    def scoped_value(self, thunk):
+        """(term, type) of a sub-expression evaluated conditionally: its own panics stay inside it"""
+        (v, t), bs = self.scoped(thunk)
+        return v, t, bs
+
+    # ---- patterns
+    def pattern(self, pat, t, env, where, fun=False):
+        """Gallina pattern for a Rust pattern of type t; binds the names in env"""
+        if pat[0] == "wild": return "_"
+        if pat[0] == "var":
+            nm = self.ident(pat[1], env, pat[1]); env[pat[1]] = (nm, t); return nm
+        if t[0] != "tup" or len(t[1]) != len(pat[1]): raise self.fail(where, "tuple pattern against a value of another shape")
+        inner = ", ".join(self.pattern_inner(q, tt, env, where) for q, tt in zip(pat[1], t[1]))
+        return f"'({inner})"
+
+    def pattern_inner(self, pat, t, env, where):
+        s = self.pattern(pat, t, env, where)
+        return s[1:] if s.startswith("'") else s
+
+    # ---- expressions
+    def expr(self, e, env):
+        k = e.kind
+        if k in ("paren", "ref"): return self.expr(e.e, env)
+        if k == "lit":
+            if e.isf or e.suffix in ("f64", "f32"):
+                try: return float_literal(e.text), "f"
+                except ValueError as ex: raise self.fail(e, str(ex))
+            return f"{int(e.text)}%Z", ("si" if e.suffix in ("i32", "i64", "isize") else "i" if e.suffix else "il")
+        if k == "path": return self.path(e, env)
+        if k == "field":
+            if e.recv.kind == "path" and e.recv.segs == ["self"]:
+                key = "self." + e.name
+                if key not in env: raise self.fail(e, f"`self.{e.name}` is not a field the translator models")
+                return env[key]
+            raise self.fail(e, "field access on something other than `self`")
+        if k == "un":
+            s, t = self.expr(e.e, env)
+            if e.op == "-":
+                if t == "f": return f"neg O ({s})", "f"
+                if is_int(t): return f"Z.opp ({s})", "si"
+                raise self.fail(e, "unary minus on a non-number")
+            if t != "b": raise self.fail(e, "`!` on a non-boolean (bitwise not is outside the subset)")
+            return f"negb ({s})", "b"
+        if k == "cast":
+            s, t = self.expr(e.e, env)
+            if e.ty == "f64":
+                if t == "f": return s, "f"
+                if is_int(t): return f"ofZ O ({s})", "f"
+            elif e.ty in INT_TYPES:
+                if is_int(t):
+                    note = "integer-to-integer `as` casts are the identity on Z (no wrap-around)"
+                    if note not in self.notes: self.notes.append(note)
+                    return s, ("si" if e.ty in ("i32", "i64", "isize", "i16", "i8", "i128") else "i")
+                if t == "f": raise self.fail(e, "float-to-integer cast is outside the subset")
+            raise self.fail(e, f"cast to `{e.ty}` is outside the subset")
+        if k == "bin": return self.binop(e, env)
+        if k == "mcall": return self.mcall(e, env)
+        if k == "call": return self.call(e, env)
+        if k == "index": return self.index(e, env)
+        if k == "tuple":
+            parts = [self.expr(x, env) for x in e.items]
+            return "(" + ", ".join(p[0] for p in parts) + ")", ("tup", tuple(p[1] for p in parts))
+        if k == "tfield":
+            s, t = self.expr(e.recv, env)
+            if t[0] != "tup" or e.idx >= len(t[1]): raise self.fail(e, "tuple field of a non-tuple")
+            n = len(t[1])
+            if n == 2: return (f"fst ({s})" if e.idx == 0 else f"snd ({s})"), t[1][e.idx]
+            pat = ", ".join("x_" if i == e.idx else "_" for i in range(n))
+            return f"(let '({pat}) := {s} in x_)", t[1][e.idx]
+        if k == "array":
+            parts = [self.expr(x, env) for x in e.items]
+            if not parts or any(p[1] != parts[0][1] for p in parts): raise self.fail(e, "array literal: elements of one type expected")
+            return "[" + "; ".join(p[0] for p in parts) + "]", ("list", parts[0][1])
+        if k == "vecrep":
+            c, tc = self.expr(e.e, env); n, tn = self.expr(e.n, env)
+            if not is_int(tn): raise self.fail(e.n, "repetition count must be an integer")
+            if tc != "f": raise self.fail(e, "`vec![c; n]`: only f64 elements are supported (the capacity check counts 8-byte elements)")
+            return self.hoist(f"rs_vec_alloc ({c}) ({n})", "l"), ("list", tc)
+        if k == "if":
+            c = self.cond(e.cond, env)
+            if e.el is None: raise self.fail(e, "value `if` without `else`")
+            def branch(b):
+                # a branch that only panics has no value: None
+                if b.kind == "block" and b.tail is None and b.stmts and b.stmts[-1].kind == "semi" and b.stmts[-1].e.kind == "panic" and len(b.stmts) == 1:
+                    return None
+                if b.kind == "block" and b.tail is not None and b.tail.kind == "panic" and not b.stmts: return None
+                return self.scoped_value(lambda: (self.value_block(b, env) if b.kind == "block" else self.expr(b, env)))
+            ra, rb = branch(e.th), branch(e.el)
+            if ra is None and rb is None: raise self.fail(e, "both branches panic")
+            if ra is not None and rb is not None:
+                a, ta, ba = ra; b, tb, bb = rb
+                if not self.same_type(ta, tb): raise self.fail(e, "branches of different types")
+                if not ba and not bb: return f"(if {c} then {a} else {b})", ta
+                return self.hoist(f"(if {c} then {self.bind_chain(ba, f'Some ({a})')} else {self.bind_chain(bb, f'Some ({b})')})"), ta
+            v, t, bs = ra if ra is not None else rb
+            some = self.bind_chain(bs, f"Some ({v})")
+            return self.hoist(f"(if {c} then {some} else None)" if rb is None else f"(if {c} then None else {some})"), t
+        if k == "iflet":
+            o, to = self.expr(e.e, env)
+            if to[0] != "opt" or e.el is None: raise self.fail(e, "`if let Some(x) = e`: e must be an Option and the `else` present")
+            env2 = dict(env); nm = self.ident(e.name, env, e.name); env2[e.name] = (nm, to[1])
+            a, ta, ba = self.scoped_value(lambda: self.value_block(e.th, env2))
+            b, tb, bb = self.scoped_value(lambda: (self.value_block(e.el, env) if e.el.kind == "block" else self.expr(e.el, env)))
+            if not self.same_type(ta, tb): raise self.fail(e, "branches of different types")
+            if not ba and not bb: return f"(match {o} with Some {nm} => {a} | None => {b} end)", ta
+            return self.hoist(f"(match {o} with Some {nm} => {self.bind_chain(ba, f'Some ({a})')} | None => {self.bind_chain(bb, f'Some ({b})')} end)"), ta
+        if k == "block": return self.value_block(e, env)
+        if k == "match": raise self.fail(e, "`match` is outside the subset")
+        if k == "range": raise self.fail(e, "a range is only supported as an iterator (`for i in a..b`, `(a..b).map(..)`) or a slice index")
+        if k == "return": raise self.fail(e, "`return` inside an expression")
+        if k in ("assert", "panic"): raise self.fail(e, "panic inside an expression")
+        if k == "closure": raise self.fail(e, "closure outside `.map(..)` / `.fold(..)`")
+        if k == "struct": raise self.fail(e, "struct literal is outside the subset")
+        raise self.fail(e, f"unsupported expression ({k})")
+
+    @staticmethod
+    def same_type(a, b):
+        if is_int(a) and is_int(b): return True
+        if isinstance(a, tuple) and isinstance(b, tuple) and a[0] == b[0]:
+            if a[0] == "tup": return len(a[1]) == len(b[1]) and all(LoopTranslator.same_type(x, y) for x, y in zip(a[1], b[1]))
+            if a[0] in ("list", "opt"): return LoopTranslator.same_type(a[1], b[1])
+        return a == b
+
+    def value_block(self, b, env):
+        """`{ let ..; let ..; value }`: immutable lets only; a panic inside makes the whole block one hoisted option term"""
+        env = dict(env); parts = []
+        for s in b.stmts:
+            if s.kind == "semi" and s.e.kind == "assert":
+                (v, t), bs = self.scoped(lambda: self.expr(s.e.cond, env))
+                if t != "b": raise self.fail(s, "condition is not a boolean")
+                parts += [("bind", p, o) for p, o in bs]
+                parts.append(("bind", "_", f"guard ({v})")); continue
+            if s.kind != "let" or any(q[0] == "var" and q[2] for q in self.flat_pats(s.pattern)):
+                raise self.fail(s, "statement inside a value block (only immutable `let` is allowed there)")
+            (v, t), bs = self.scoped(lambda: self.expr(s.e, env))
+            parts += [("bind", p, o) for p, o in bs]
+            if s.ty is not None:
+                if not self.same_type(self.ty_of_rust(s.ty, s), t): raise self.fail(s, "declared type differs from the inferred one")
+                t = self.ty_of_rust(s.ty, s)
+            parts.append(("let", self.pattern(s.pattern, t, env, s), v))
+        if b.tail is None: raise self.fail(b, "block without a value")
+        (v, t), bs = self.scoped(lambda: self.expr(b.tail, env))
+        parts += [("bind", p, o) for p, o in bs]
+        partial = any(p[0] == "bind" for p in parts)
+        inner = f"Some ({v})" if partial else v
+        for kind, pat, val in reversed(parts):
+            inner = f"let* {pat.lstrip(chr(39))} := {val} in {inner}" if kind == "bind" else f"let {pat} := {val} in {inner}"
+        if partial: return self.hoist(f"({inner})"), t
+        return (f"({inner})" if parts else inner), t
+
+    @staticmethod
+    def flat_pats(pat):
+        if pat[0] == "tup": return [x for q in pat[1] for x in LoopTranslator.flat_pats(q)]
+        return [pat]
+
+    def path(self, e, env):
+        segs = e.segs
+        if len(segs) == 1 and segs[0] in env: return env[segs[0]]
+        name = segs[-1]
+        if segs == ["self"] and getattr(self, "result_mode", "value") == "fields": return "tt", "unit"     # `self` as the value of a `&mut self` method
+        if len(segs) == 1 and name in self.cfg.consts: return self.cfg.consts[name], "f"
+        if segs[-2:] in (["f64", "NAN"],): return "rs_f64_nan O", "f"
+        if segs[-2:] in (["f64", "MAX"],): return "rs_f64_max O", "f"
+        if segs[-2:] in (["f64", "MIN"],): return "rs_f64_min O", "f"
+        if segs[-2:] in (["f64", "INFINITY"],): return "rs_f64_infinity O", "f"
+        if segs[-2:] in (["f64", "NEG_INFINITY"],): return "rs_f64_neg_infinity O", "f"
+        if len(segs) == 1 and name in self.cfg.arrays:
+            lst, elt_ty, render = self.cfg.arrays[name]
+            if render != "{v}": return f"(map (fun v_ => {render.format(v='v_')}) {lst})", ("list", "f")
+            return lst, ("list", "f")
+        s, t = super().path(e, env)
+        return s, t
+
+    def binop(self, e, env):
+        op = e.op
+        if op in ("&&", "||"):
+            a, ta = self.expr(e.a, env)
+            b, tb, bb = self.scoped_value(lambda: self.expr(e.b, env))
+            if ta != "b" or tb != "b": raise self.fail(e, f"`{op}` on non-booleans")
+            if not bb: return (f"andb ({a}) ({b})" if op == "&&" else f"orb ({a}) ({b})"), "b"
+            # the right operand can panic and is only evaluated when the left one does not decide
+            rhs = self.bind_chain(bb, f"Some ({b})")
+            return self.hoist(f"(if {a} then {rhs} else Some false)" if op == "&&" else f"(if {a} then Some true else {rhs})"), "b"
+        a, ta = self.expr(e.a, env); b, tb = self.expr(e.b, env)
+        if op in ("&", "|"):
+            if ta != "b" or tb != "b": raise self.fail(e, f"`{op}` on non-booleans")
+            return (f"andb ({a}) ({b})" if op == "&" else f"orb ({a}) ({b})"), "b"
+        cmp_ = op in ("<", ">", "<=", ">=", "==", "!=")
+        if ta == "f" and tb == "f":
+            tab = {"+": "add O ({a}) ({b})", "-": "sub O ({a}) ({b})", "*": "mul O ({a}) ({b})", "/": "div O ({a}) ({b})",
+                   "<": "ltb O ({a}) ({b})", ">": "ltb O ({b}) ({a})", "<=": "leb O ({a}) ({b})", ">=": "leb O ({b}) ({a})",
+                   "==": "eqb O ({a}) ({b})", "!=": "negb (eqb O ({a}) ({b}))"}
+            if op not in tab: raise self.fail(e, f"operator `{op}` on f64 is outside the subset")
+            return tab[op].format(a=a, b=b), ("b" if cmp_ else "f")
+        if ta == ("list", "f") and tb == "f" and op in ("*", "/", "+", "-"):
+            # `Vector op f64`: element-wise
+            opn = {"*": "mul", "/": "div", "+": "add", "-": "sub"}[op]
+            return f"map (fun v_ => {opn} O v_ ({b})) ({a})", ta
+        if is_int(ta) and is_int(tb):
+            signed = "si" in (ta, tb)
+            tr = int_join(ta, tb)
+            if op == "-" and tr == "il":
+                raise self.fail(e, "subtraction of integers whose signedness is not known (an unsuffixed literal's type is inferred by rustc): annotate a type")
+            tab = {"+": "Z.add ({a}) ({b})", "*": "Z.mul ({a}) ({b})",
+                   "-": ("Z.sub ({a}) ({b})" if signed else "rs_usub ({a}) ({b})"),
+                   "<": "Z.ltb ({a}) ({b})", ">": "Z.ltb ({b}) ({a})", "<=": "Z.leb ({a}) ({b})", ">=": "Z.leb ({b}) ({a})",
+                   "==": "Z.eqb ({a}) ({b})", "!=": "negb (Z.eqb ({a}) ({b}))"}
+            if op in ("/", "%"):
+                lit = self.strip(e.b)
+                if lit.kind == "lit" and not lit.isf and int(lit.text) != 0:
+                    return (f"Z.quot ({a}) ({b})" if op == "/" else f"Z.rem ({a}) ({b})"), tr
+                return self.hoist(f"{'rs_idiv' if op == '/' else 'rs_irem'} ({a}) ({b})"), tr
+            if op == "-" and not signed:
+                note = "unsigned `a - b` is rs_usub a b: the release build's wrap-around modulo 2^64 (a debug build panics instead)"
+                if note not in self.notes: self.notes.append(note)
+            if op not in tab: raise self.fail(e, f"operator `{op}` on integers is outside the subset")
+            return tab[op].format(a=a, b=b), ("b" if cmp_ else tr)
+        raise self.fail(e, f"operands of `{op}` have different or non-numeric types")
+
+    def index(self, e, env):
+        r, tr = self.expr(e.recv, env)
+        if tr[0] != "list": raise self.fail(e, "indexing something that is not a slice / Vec")
+        ix = self.strip(e.idx) if e.idx.kind in ("paren",) else e.idx
+        if ix.kind == "range":
+            if ix.incl: raise self.fail(ix, "inclusive slice range is outside the subset")
+            lo = self.expr(ix.lo, env) if ix.lo is not None else None
+            hi = self.expr(ix.hi, env) if ix.hi is not None else None
+            for x in (lo, hi):
+                if x is not None and not is_int(x[1]): raise self.fail(ix, "slice bounds must be integers")
+            if lo is None and hi is None: return r, tr
+            if hi is None: return self.hoist(f"rs_slice_from ({r}) ({lo[0]})", "sl"), tr
+            if lo is None: return self.hoist(f"rs_slice_to ({r}) ({hi[0]})", "sl"), tr
+            return self.hoist(f"rs_slice ({r}) ({lo[0]}) ({hi[0]})", "sl"), tr
+        if ix.kind == "array": raise self.fail(e, "matrix indexing `m[[i, j]]` is outside the subset")
+        i, ti = self.expr(ix, env)
+        if not is_int(ti): raise self.fail(e.idx, "index must be an integer")
+        return self.hoist(f"rs_get ({r}) ({i})"), tr[1]
+
+    # ---- iterator chains: (list term, element type) or None
+    ITER_ID = ("iter", "into_iter", "cloned", "copied", "collect", "to_vec", "clone", "to_owned", "as_slice")
+
+    def iter_of(self, e, env):
+        e = self.strip(e)
+        if e.kind == "range":
+            if e.lo is None or e.hi is None: raise self.fail(e, "unbounded range as an iterator")
+            lo, tl = self.expr(e.lo, env); hi, th = self.expr(e.hi, env)
+            if not (is_int(tl) and is_int(th)): raise self.fail(e, "only integer ranges are supported")
+            t = "si" if "si" in (tl, th) else "i"      # an unannotated counter is taken unsigned (it indexes / counts)
+            return (f"rs_range ({lo}) ({hi})" if e.incl else f"rs_range_excl ({lo}) ({hi})"), t
+        if e.kind == "mcall":
+            nm = e.name
+            if nm in self.ITER_ID and not e.args:
+                return self.iter_of(e.recv, env)
+            if nm == "zip" and len(e.args) == 1:
+                a, ta = self.iter_of(e.recv, env); b, tb = self.iter_of(e.args[0], env)
+                return f"combine ({a}) ({b})", ("tup", (ta, tb))
+            if nm == "enumerate" and not e.args:
+                a, ta = self.iter_of(e.recv, env)
+                return f"rs_enumerate ({a})", ("tup", ("i", ta))
+            if nm == "rev" and not e.args:
+                a, ta = self.iter_of(e.recv, env)
+                return f"rev ({a})", ta
+            if nm in ("take", "skip") and len(e.args) == 1:
+                a, ta = self.iter_of(e.recv, env); n, tn = self.expr(e.args[0], env)
+                if not is_int(tn): raise self.fail(e, f"`.{nm}` count must be an integer")
+                return f"rs_{nm} ({a}) ({n})", ta
+            if nm == "map" and len(e.args) == 1:
+                a, ta = self.iter_of(e.recv, env)
+                f, tr, partial = self.closure_fn(e.args[0], [ta], env)
+                if partial: return self.hoist(f"rs_map_opt ({f}) ({a})", "l"), tr
+                return f"map ({f}) ({a})", tr
+        s, t = self.expr(e, env)
+        if t[0] != "list": raise self.fail(e, "an iterator / slice expected")
+        return s, t[1]
+
+    def closure_fn(self, cl, argtypes, env):
+        """(fun .. => body, result type, partial?)"""
+        cl = self.strip(cl)
+        if cl.kind == "path" and cl.segs[-2:] in (["f64", "max"], ["f64", "min"]) and all(t == "f" for t in argtypes) and len(argtypes) == 2:
+            return f"f{cl.segs[-1]} O", "f", False
+        if cl.kind == "path" and len(cl.segs) == 1 and cl.segs[0] in env and env[cl.segs[0]][1][0] == "fn":
+            return env[cl.segs[0]][0], env[cl.segs[0]][1][2], False
+        if cl.kind != "closure": raise self.fail(cl, "a closure expected")
+        if len(cl.params) != len(argtypes): raise self.fail(cl, "closure with an unexpected number of parameters")
+        env2 = dict(env); pats = []
+        for p, t in zip(cl.params, argtypes):
+            pats.append(self.pattern(p, t, env2, cl))
+        (v, t), bs = self.scoped(lambda: self.expr(cl.body, env2))
+        body = self.bind_chain(bs, f"Some ({v})") if bs else v
+        return f"fun {' '.join(pats)} => {body}", t, bool(bs)
+
+    def mcall(self, e, env):
+        name, args = e.name, e.args
+        recv = self.strip(e.recv)
+        if recv.kind == "path" and recv.segs == ["self"]: return self.self_call(e, env)
+        if name in ("sum", "product") and not args:
+            l, t = self.iter_of(e.recv, env)
+            if t != "f": raise self.fail(e, f"only `.{name}()` of f64 terms is supported")
+            return (f"rs_iter_sum O ({l})" if name == "sum" else f"rs_iter_product O ({l})"), "f"
+        if name == "fold" and len(args) == 2:
+            l, t = self.iter_of(e.recv, env)
+            init, ti = self.expr(args[0], env)
+            f, tr, partial = self.closure_fn(args[1], [ti, t], env)
+            if not self.same_type(tr, ti): raise self.fail(e, "`.fold`: the closure's result differs from the initial value's type")
+            if partial: return self.hoist(f"rs_fold_opt ({f}) ({l}) ({init})"), ti
+            return f"fold_left ({f}) ({l}) ({init})", ti
+        if name == "len" and not args:
+            l, t = self.iter_of(e.recv, env)
+            return f"rs_len ({l})", "i"
+        if name in self.ITER_ID + ("zip", "enumerate", "rev", "take", "skip", "map") :
+            l, t = self.iter_of(e, env)
+            return l, ("list", t)
+        r, tr = self.expr(e.recv, env)
+        if tr[0] == "opt" and name in ("is_none", "is_some") and not args:
+            return f"(match {r} with Some _ => {'false' if name == 'is_none' else 'true'} | None => {'true' if name == 'is_none' else 'false'} end)", "b"
+        if name in ("min", "max") and len(args) == 1:
+            a, ta = self.expr(args[0], env)
+            if tr == "f" and ta == "f": return f"f{name} O ({r}) ({a})", "f"
+            if is_int(tr) and is_int(ta): return f"Z.{name} ({r}) ({a})", int_join(tr, ta)
+            raise self.fail(e, "receiver and argument of different types")
+        if is_int(tr):
+            if name == "abs" and not args: return f"Z.abs ({r})", "si"
+            if name == "pow" and len(args) == 1:
+                a, ta = self.expr(args[0], env)
+                if not is_int(ta): raise self.fail(args[0], "integer exponent expected")
+                return f"Z.pow ({r}) ({a})", tr
+        if tr != "f": raise self.fail(e, f"method `.{name}` on this receiver is outside the subset")
+        if name in F1 and not args: return f"f1 O {F1[name]} ({r})", "f"
+        if name == "sqrt" and not args: return f"sqrt O ({r})", "f"
+        if name == "abs" and not args: return f"abs O ({r})", "f"
+        if name == "powi" and len(args) == 1:
+            a, ta = self.expr(args[0], env)
+            if not is_int(ta): raise self.fail(args[0], "powi exponent must be an integer expression")
+            return f"powi O ({r}) ({a})", "f"
+        if name == "powf" and len(args) == 1:
+            a, ta = self.expr(args[0], env)
+            if ta != "f": raise self.fail(args[0], "powf exponent must be f64")
+            base = self.strip(e.recv)
+            if base.kind == "lit" and base.isf and Fraction(base.text) == 2:
+                note = "R1: `2_f64.powf(e)` rendered as exp2(e) (what rustc/LLVM emits)"
+                if note not in self.notes: self.notes.append(note)
+                return f"f1 O Exp2 ({a})", "f"
+            return f"f2 O Pow ({r}) ({a})", "f"
+        raise self.fail(e, f"method `.{name}` with {len(args)} argument(s) is outside the subset")
+
+    def args_of(self, e, args, argt):
+        if len(argt) != len(args): raise self.fail(e, "wrong number of arguments")
+        out = []
+        for a, want in zip(args, argt):
+            if want[0] == "fn":
+                f, tr, partial = self.closure_fn(a, list(want[1]), env=self._env)
+                if partial or not self.same_type(tr, want[2]): raise self.fail(a, "closure argument of the wrong type (or one that can panic)")
+                out.append(f"({f})"); continue
+            s, t = (self.iter_of(a, self._env) if want[0] == "list" else self.expr(a, self._env))
+            if want[0] == "list": t = ("list", t)
+            if not self.same_type(t, want): raise self.fail(a, "argument of the wrong type")
+            out.append(f"({s})")
+        return out
+
+    def apply(self, e, name, args, env):
+        """call of a crate function: a definition translated earlier (cfg.defs) or an abstract parameter (cfg.calls)"""
+        self._env = env
+        if name in self.cfg.defs:
+            term, argt, rt, partial, used, fields = self.cfg.defs[name]
+            for u in used:
+                if u not in self.used_calls: self.used_calls.append(u)
+            for f in fields:
+                if f not in env: raise self.fail(e, f"`{name}` reads `{f}`, which is not modelled here")
+            s = f"{term} " + " ".join([f"({env[f][0]})" for f in fields] + self.args_of(e, args, argt))
+            if partial: return self.hoist(f"({s})", "r"), rt
+            return f"({s})" if args else s, rt
+        if name in self.cfg.calls:
+            cq, argt, rt = self.cfg.calls[name]
+            if not argt: raise self.fail(e, "random draws are outside the subset here")
+            if cq not in self.used_calls: self.used_calls.append(cq)
+            s = f"{cq} " + " ".join(self.args_of(e, args, argt))
+            if rt[0] == "opt": return self.hoist(f"({s})", "r"), rt[1]
+            return f"({s})", rt
+        return None
+
+    def call(self, e, env):
+        name = "::".join(e.path); args = e.args
+        if len(e.path) == 1 and name in env and env[name][1][0] == "fn":
+            f, ft = env[name]
+            self._env = env
+            return f"{f} " + " ".join(self.args_of(e, args, list(ft[1]))), ft[2]
+        if name in ("f64::min", "f64::max") and len(args) == 2:
+            a, ta = self.expr(args[0], env); b, tb = self.expr(args[1], env)
+            if ta != "f" or tb != "f": raise self.fail(e, "f64 arguments expected")
+            return f"f{e.path[-1]} O ({a}) ({b})", "f"
+        if name in ("Vec::with_capacity", "Vector::with_capacity") and len(args) == 1:
+            self.expr(args[0], env)
+            return "[]", ("list", "f")
+        if name in ("Vec::new", "Vector::new") and not args: return "[]", ("list", "f")
+        if name in ("Vector::ones", "Vector::zeros") and len(args) == 1:
+            n, tn = self.expr(args[0], env)
+            if not is_int(tn): raise self.fail(e, "integer length expected")
+            return self.hoist(f"rs_vec_alloc ({'one O' if name.endswith('ones') else 'zero O'}) ({n})", "l"), ("list", "f")
+        if name in ("Vector::from", "Vec::from") and len(args) == 1:
+            l, t = self.iter_of(args[0], env); return l, ("list", t)
+        r = self.apply(e, e.path[-1] if name not in self.cfg.defs and name not in self.cfg.calls else name, args, env)
+        if r is not None: return r
+        raise self.fail(e, f"call of `{name}` is outside the subset (not in the target's table of crate functions)")
+
+    def self_call(self, e, env):
+        key = "self." + e.name
+        r = self.apply(e, key, e.args, env) if (key in self.cfg.defs or key in self.cfg.calls) else None
+        if r is not None: return r
+        raise self.fail(e, f"`self.{e.name}(..)` is outside the subset (not in the target's table)")
+
+    # ---- analyses
+    @staticmethod
+    def root_var(t):
+        while t.kind in ("paren", "ref", "index"): t = t.e if t.kind in ("paren", "ref") else t.recv
+        if t.kind == "path" and len(t.segs) == 1: return t.segs[0]
+        if t.kind == "field" and t.recv.kind == "path" and t.recv.segs == ["self"]: return "self." + t.name
+        return None
+
+    MUTATORS = ("push", "extend", "reverse", "extend_from_slice")
+
+    def assigned(self, node, local):
+        """Rust variables (declared outside `node`) that `node` assigns"""
+        out = []
+        def add(v):
+            if v is not None and v not in local and v not in out: out.append(v)
+        def walk_block(b, local):
+            local = set(local)
+            for s in b.stmts:
+                if s.kind == "let":
+                    walk_expr(s.e, local); local |= set(Parser.pattern_names(s.pattern))
+                elif s.kind in ("assign", "opassign"):
+                    v = self.root_var(s.target)
+                    if v is None: raise self.fail(s.target, "assignment target outside the subset")
+                    if v not in local: add(v)
+                    walk_expr(s.e, local)
+                elif s.kind == "for":
+                    walk_block(s.body, local | set(s.pat))
+                elif s.kind == "while":
+                    walk_block(s.body, local)
+                elif s.kind == "semi":
+                    walk_expr(s.e, local)
+            if b.tail is not None: walk_expr(b.tail, local)
+        def walk_expr(e, local):
+            if e is None: return
+            if e.kind == "block": walk_block(e, local); return
+            if e.kind in ("if", "iflet"):
+                walk_block(e.th, local)
+                if e.el is not None: walk_expr(e.el, local)
+                return
+            if e.kind == "mcall" and e.name in self.MUTATORS:
+                v = self.root_var(e.recv)
+                if v is not None and v not in local: add(v)
+            if e.kind in ("paren", "ref"): walk_expr(e.e, local)
+        if node.kind == "block": walk_block(node, set(local))
+        else: walk_expr(node, set(local))
+        return out
+
+    def ret_seen(self, t, where):
+        if self.ret_type is None: self.ret_type = t
+        elif not self.same_type(self.ret_type, t): raise self.fail(where, "results of different types")
+
+    # ---- statements
+    def with_modes(self, modes, thunk):
+        """render with the first context mode that suffices (a panic needs 'opt', break / return need 'flow')"""
+        rank = {"total": 0, "pure": 0, "opt": 1, "flow": 2}
+        i = 0
+        while True:
+            g, nb, uc, rt = self.gensym, [list(b) for b in self.binds], list(self.used_calls), self.ret_type
+            try: return modes[i], thunk(modes[i])
+            except NeedMode as nm:
+                self.gensym, self.binds, self.used_calls, self.ret_type = g, nb, uc, rt
+                need = rank[nm.what]
+                while i < len(modes) and rank[modes[i]] < need: i += 1
+                if i >= len(modes): raise
+
+    def flush(self, binds, body, K):
+        for pat, opt in reversed(binds): body = K.bind(pat, opt, body)
+        return body
+
+    def stmt_value(self, e, env, K, k):
+        """evaluate expression e in its own scope, then continue with k((term, type)); its panics go to K"""
+        (v, t), bs = self.scoped(lambda: self.expr(e, env))
+        if bs and K.mode in ("total", "pure"): raise NeedMode("opt")
+        return self.flush(bs, k((v, t)), K)
+
+    def seq(self, stmts, tail, env, K, where):
+        if not stmts:
+            if tail is None: return K.fall(env, None, where)
+            return self.tail(tail, env, K)
+        s, rest = stmts[0], stmts[1:]
+        go = lambda env2: self.seq(rest, tail, env2, K, where)
+        k = s.kind
+        if k == "let":
+            env2 = dict(env)
+            if K.kind in ("loop", "merge"):
+                for nmv in Parser.pattern_names(s.pattern):
+                    if nmv in K.state: raise self.fail(s, f"a `let` that shadows `{nmv}`, which this loop / branch assigns, is outside the subset")
+            def after(vt):
+                v, t = vt
+                if s.ty is not None:
+                    want = self.ty_of_rust(s.ty, s)
+                    if not self.same_type(want, t): raise self.fail(s, "declared type differs from the inferred one")
+                    t = want      # the annotation decides the signedness of an integer literal
+                pat = self.pattern(s.pattern, t, env2, s)
+                return f"let {pat} := {v} in " + go(env2)
+            return self.stmt_value(s.e, env, K, after)
+        if k in ("assign", "opassign"):
+            return self.assign(s, env, K, go)
+        if k == "for": return self.for_loop(s, env, K, go)
+        if k == "while": return self.while_loop(s, env, K, go)
+        e = s.e
+        if e.kind == "assert":
+            def after(vt):
+                if vt[1] != "b": raise self.fail(e, "condition is not a boolean")
+                return f"if {vt[0]} then {go(env)} else {K.panic()}"
+            return self.stmt_value(e.cond, env, K, after)
+        if e.kind == "panic": return K.panic()
+        if e.kind == "return":
+            if e.e is None: return K.ret(env, None, e)
+            return self.stmt_value(e.e, env, K, lambda vt: K.ret(env, vt, e))
+        if e.kind == "break":
+            if e.e is not None: raise self.fail(e, "`break` with a value is outside the subset")
+            return K.brk(env, e)
+        if e.kind == "continue": return K.cont(env, e)
+        if e.kind in ("if", "iflet", "block"):
+            return self.stmt_if(e, rest, tail, env, K, where)
+        if e.kind == "match": raise self.fail(e, "`match` is outside the subset")
+        if e.kind == "mcall" and e.name in self.MUTATORS:
+            v = self.root_var(e.recv)
+            if v is None or v not in env or self.strip(e.recv).kind not in ("path", "field"): raise self.fail(e, "mutation of something other than a local Vec")
+            nm, t = env[v]
+            if t[0] != "list": raise self.fail(e, f"`.{e.name}` on a non-Vec")
+            def render():
+                if e.name == "reverse" and not e.args: return f"rev ({nm})"
+                if len(e.args) != 1: raise self.fail(e, "one argument expected")
+                if e.name == "push":
+                    a, ta = self.expr(e.args[0], env)
+                    if not self.same_type(ta, t[1]): raise self.fail(e, "pushed value of the wrong type")
+                    return f"{nm} ++ [{a}]"
+                a, ta = self.iter_of(e.args[0], env)
+                if not self.same_type(ta, t[1]): raise self.fail(e, "extended by values of the wrong type")
+                return f"{nm} ++ {a}"
+            new, bs = self.scoped(render)
+            if bs and K.mode in ("total", "pure"): raise NeedMode("opt")
+            return self.flush(bs, f"let {nm} := {new} in " + go(env), K)
+        raise self.fail(s, "expression statement without effect on the result is outside the subset")
+
+    def assign(self, s, env, K, go):
+        tgt = self.strip(s.target)
+        v = self.root_var(tgt)
+        if v is None or v not in env: raise self.fail(s.target, "assignment to something that is not a mutable local")
+        nm, t = env[v]
+        def render():
+            rhs, tr = self.expr(s.e, env)
+            if tgt.kind in ("path", "field"):
+                cur, tcur = nm, t
+            elif tgt.kind == "index" and self.strip(tgt.recv).kind in ("path", "field") and t[0] == "list" and tgt.idx.kind != "range":
+                i, ti = self.expr(tgt.idx, env)
+                if not is_int(ti): raise self.fail(tgt.idx, "index must be an integer")
+                tcur = t[1]
+                cur = self.hoist(f"rs_get ({nm}) ({i})") if s.kind == "opassign" else None
+            else:
+                raise self.fail(s.target, "assignment target outside the subset")
+            if s.kind == "opassign":
+                if tcur == "f" and tr == "f":
+                    val = {"+": "add", "-": "sub", "*": "mul", "/": "div"}[s.op] + f" O ({cur}) ({rhs})"
+                elif is_int(tcur) and is_int(tr) and s.op in "+-*":
+                    if s.op == "-" and int_join(tcur, tr) == "il":
+                        raise self.fail(s, "subtraction of integers whose signedness is not known (an unsuffixed literal's type is inferred by rustc): annotate a type")
+                    val = {"+": f"Z.add ({cur}) ({rhs})", "*": f"Z.mul ({cur}) ({rhs})",
+                           "-": (f"Z.sub ({cur}) ({rhs})" if "si" in (tcur, tr) else f"rs_usub ({cur}) ({rhs})")}[s.op]
+                else: raise self.fail(s, "compound assignment on these types is outside the subset")
+            else:
+                if not self.same_type(tcur, tr): raise self.fail(s, "assigned value of another type")
+                val = rhs
+            if tgt.kind == "index":
+                return self.hoist(f"rs_set ({nm}) ({i}) ({val})", "l")
+            return val
+        new, bs = self.scoped(render)
+        if bs and K.mode in ("total", "pure"): raise NeedMode("opt")
+        return self.flush(bs, f"let {nm} := {new} in " + go(env), K)
+
+    def escapes(self, node):
+        """does `node` contain return / break / continue (break / continue of nested loops not counted)"""
+        def ex(n, inloop):
+            if isinstance(n, N):
+                if n.kind == "return": return True
+                if n.kind in ("break", "continue") and not inloop: return True
+                if n.kind == "closure": return False
+                il = inloop or n.kind in ("for", "while", "loop")
+                return any(ex(v, il) for k, v in n.__dict__.items() if k not in ("kind", "pos", "end"))
+            if isinstance(n, (list, tuple)): return any(ex(v, inloop) for v in n)
+            return False
+        return ex(node, False)
+
+    def stmt_if(self, e, rest, tail, env, K, where):
+        """a statement `if` (or block): merged when its branches only update variables, else the rest of the enclosing
+           block continues inside every branch that does not leave"""
+        s, bs = self.scoped(lambda: self.stmt_if_(e, rest, tail, env, K, where))
+        if bs and K.mode in ("total", "pure"): raise NeedMode("opt")
+        return self.flush(bs, s, K)
+
+    def inline_branch(self, b, rest, tail, env, K, where):
+        """the statements of branch b followed by the rest of the enclosing block"""
+        for x in b.stmts:
+            if x.kind == "let" and any(n in env for n in Parser.pattern_names(x.pattern)):
+                raise self.fail(x, "a `let` that shadows a visible variable inside a statement branch is outside the subset")
+        stmts = list(b.stmts) + ([N("semi", b.tail.pos, b.tail.end, e=b.tail)] if b.tail is not None else [])
+        return self.seq(stmts + list(rest), tail, dict(env), K, where)
+
+    def stmt_if_(self, e, rest, tail, env, K, where):
+        go = lambda env2: self.seq(rest, tail, env2, K, where)
+        if e.kind == "block":
+            if e.tail is not None: raise self.fail(e, "block statement with a value")
+            if not self.escapes(e): return self.block_stmt(e, env, K, go)
+            return self.inline_branch(e, rest, tail, env, K, where)
+        asg = self.assigned(N("block", e.pos, e.end, stmts=[N("semi", e.pos, e.end, e=e)], tail=None), set())
+        M = [m for m in env if m in asg]
+        if M and not self.escapes(e):
+            def render(mode):
+                C = Ctx(self, "merge", mode, M)
+                return self.cond_tree(e, env, lambda b, envb: self.seq(b.stmts, b.tail, envb, C, b), lambda envb: C.fall(envb, None, e), C)
+            mode, body = self.with_modes(["pure", "opt"], render)
+            pat = env[M[0]][0] if len(M) == 1 else "'(" + ", ".join(env[m][0] for m in M) + ")"
+            if mode == "pure": return f"let {pat} := {body} in " + go(env)
+            if K.mode in ("total", "pure"): raise NeedMode("opt")
+            return K.bind(pat, f"({body})", go(env))
+        return self.cond_tree(e, env, lambda b, envb: self.inline_branch(b, rest, tail, envb, K, where), go, K)
+
+    def block_stmt(self, b, env, K, go):
+        M = [m for m in env if m in self.assigned(b, set())]
+        def render(mode):
+            C = Ctx(self, "merge", mode, M)
+            return self.seq(b.stmts, None, dict(env), C, b)
+        mode, body = self.with_modes(["pure", "opt"], render)
+        pat = "_" if not M else (env[M[0]][0] if len(M) == 1 else "'(" + ", ".join(env[m][0] for m in M) + ")")
+        if mode == "pure": return f"let {pat} := {body} in " + go(env)
+        if K.mode in ("total", "pure"): raise NeedMode("opt")
+        return K.bind(pat, f"({body})", go(env))
+
+    def cond_tree(self, e, env, branch, empty, K):
+        """if c then branch(th) else (branch(el) | nested if | empty); the panics of the first condition go to the enclosing
+           scope, those of an `else if` condition stay inside that `else`"""
+        def else_part():
+            if e.el is None: return empty(dict(env))
+            if e.el.kind in ("if", "iflet"):
+                s2, bs2 = self.scoped(lambda: self.cond_tree(e.el, env, branch, empty, K))
+                if bs2 and K.mode in ("total", "pure"): raise NeedMode("opt")
+                return self.flush(bs2, s2, K)
+            return branch(e.el, dict(env))
+        if e.kind == "iflet":
+            o, to = self.expr(e.e, env)
+            if to[0] != "opt": raise self.fail(e, "`if let Some(x) = e`: e must be an Option")
+            env2 = dict(env); nm = self.ident(e.name, env, e.name); env2[e.name] = (nm, to[1])
+            a = branch(e.th, env2)
+            return f"match {o} with Some {nm} => {a} | None => {else_part()} end"
+        c, tc = self.expr(e.cond, env)
+        if tc != "b": raise self.fail(e.cond, "condition is not a boolean")
+        a = branch(e.th, dict(env))
+        return f"if {c} then {a} else {else_part()}"
+
+    def tail(self, e, env, K):
+        k = e.kind
+        if k == "paren": return self.tail(e.e, env, K)
+        if k == "return":
+            if e.e is None: return K.ret(env, None, e)
+            return self.tail_value(e.e, env, K, ret=True)
+        if k == "panic": return K.panic()
+        if k == "break":
+            if e.e is not None: raise self.fail(e, "`break` with a value is outside the subset")
+            return K.brk(env, e)
+        if k == "continue": return K.cont(env, e)
+        if k == "block": return self.seq(e.stmts, e.tail, dict(env), K, e)
+        if k in ("if", "iflet") and (K.kind != "fn" or self.has_stmts(e)):
+            # branches with statements (or a unit-valued `if` ending a loop body): each branch ends the enclosing block
+            (s, bs) = self.scoped(lambda: self.cond_tree(e, env, lambda b, envb: self.seq(b.stmts, b.tail, envb, K, b), lambda envb: K.fall(envb, None, e), K))
+            if bs and K.mode in ("total", "pure"): raise NeedMode("opt")
+            return self.flush(bs, s, K)
+        return self.tail_value(e, env, K)
+
+    def has_stmts(self, e):
+        if e.kind in ("if", "iflet"):
+            return self.has_stmts(e.th) or (e.el is not None and self.has_stmts(e.el))
+        if e.kind == "block":
+            return any(s.kind != "let" or s.mut for s in e.stmts) or (e.tail is not None and self.has_stmts(e.tail)) or e.tail is None
+        return e.kind in ("return", "panic", "break", "continue")
+
+    def tail_value(self, e, env, K, ret=False):
+        return self.stmt_value(e, env, K, lambda vt: (K.ret(env, vt, e) if ret else K.fall(env, vt, e)))
+
+    def loop_state(self, body, env, extra_local=()):
+        asg = self.assigned(body, set(extra_local))
+        return [m for m in env if m in asg]
+
+    def render_loop(self, lst, pat_of, body, env, K, go, where, M):
+        """fold over list term `lst`; pat_of(env_body) -> Gallina binder for the element (binds the loop variables)"""
+        def render(mode):
+            envb = dict(env)
+            pat = pat_of(envb)
+            C = Ctx(self, "loop", mode, M)
+            return pat, self.seq(body.stmts, body.tail, envb, C, body)
+        mode, (pat, b) = self.with_modes(["pure", "opt", "flow"], render)
+        names = [env[m][0] for m in M]
+        sv = "tt" if not M else (names[0] if len(M) == 1 else "(" + ", ".join(names) + ")")
+        sp = "_" if not M else (names[0] if len(M) == 1 else "'(" + ", ".join(names) + ")")
+        if mode == "pure":
+            return f"let {sp} := fold_left (fun {sp} {pat} => {b}) ({lst}) {sv} in " + go(env)
+        if mode == "opt":
+            if K.mode in ("total", "pure"): raise NeedMode("opt")
+            return K.bind(sp, f"rs_fold_opt (fun {sp} {pat} => {b}) ({lst}) {sv}", go(env))
+        if K.mode in ("total", "pure"): raise NeedMode("opt")
+        has_ret = "rs_return" in b
+        mp = sv if M else "_"
+        r = self.fresh("r")
+        return (f"match rs_loop{'' if has_ret else ' (R := unit)'} (fun {sp} {pat} => {b}) ({lst}) {sv} with "
+                f"| rs_next {mp} | rs_break {mp} => {go(env)} "
+                f"| rs_return {r} => {K.ret(env, (r, self.ret_type), where) if has_ret else K.panic()} | rs_panic => {K.panic()} end")
+
+    def for_loop(self, s, env, K, go):
+        (lt, bs) = self.scoped(lambda: self.iter_of(s.iter, env))
+        if bs and K.mode in ("total", "pure"): raise NeedMode("opt")
+        lst, t = lt
+        M = self.loop_state(s.body, env, s.pat)
+        body = self.render_loop(lst, lambda envb: self.pattern(s.pattern, t, envb, s), s.body, env, K, go, s, M)
+        return self.flush(bs, body, K)
+
+    def while_loop(self, s, env, K, go):
+        """R2: `while i < b { ..; i += 1; }` with an integer counter i that the body only changes by its last statement and a
+           bound b the body does not change is the loop `for i in i..b { ..; i += 1 }` (i stays part of the state)"""
+        bad = "`while` is only supported with an explicit integer counter: `while i < bound { ..; i += 1; }`"
+        c = self.strip(s.cond)
+        if c.kind != "bin" or c.op not in ("<", "<="): raise self.fail(s, bad)
+        iv = self.strip(c.a)
+        if iv.kind != "path" or len(iv.segs) != 1 or iv.segs[0] not in env or not is_int(env[iv.segs[0]][1]): raise self.fail(s, bad)
+        i = iv.segs[0]
+        st = s.body.stmts
+        last = st[-1] if st and s.body.tail is None else None
+        ok = (last is not None and last.kind == "opassign" and last.op == "+" and self.root_var(last.target) == i
+              and self.strip(last.target).kind == "path" and self.strip(last.e).kind == "lit" and self.strip(last.e).text == "1")
+        if not ok: raise self.fail(s, bad)
+        inner = N("block", s.body.pos, s.body.end, stmts=st[:-1], tail=None)
+        if i in self.assigned(inner, set()): raise self.fail(s, bad + " (the counter is assigned elsewhere in the body)")
+        asg = set(self.assigned(s.body, set()))
+        def mentions(n):
+            if isinstance(n, N):
+                if n.kind == "path" and len(n.segs) == 1 and n.segs[0] in asg: return True
+                return any(mentions(v) for k, v in n.__dict__.items() if k not in ("kind", "pos", "end"))
+            if isinstance(n, (list, tuple)): return any(mentions(v) for v in n)
+            return False
+        if mentions(c.b): raise self.fail(s, bad + " (the bound changes in the body)")
+        def has_continue(n, inloop=False):
+            if isinstance(n, N):
+                if n.kind == "continue" and not inloop: return True
+                il = inloop or n.kind in ("for", "while", "loop")
+                return any(has_continue(v, il) for k, v in n.__dict__.items() if k not in ("kind", "pos", "end"))
+            if isinstance(n, (list, tuple)): return any(has_continue(v, inloop) for v in n)
+            return False
+        if has_continue(s.body): raise self.fail(s, bad + " (`continue` would skip the increment)")
+        note = "R2: `while i < b { ..; i += 1; }` rendered as the fold over the range i..b with i kept in the state"
+        if note not in self.notes: self.notes.append(note)
+        (bt, bs) = self.scoped(lambda: self.expr(c.b, env))
+        if bs and K.mode in ("total", "pure"): raise NeedMode("opt")
+        b, tb = bt
+        if not is_int(tb): raise self.fail(s, bad)
+        inm = env[i][0]
+        lst = f"rs_range_excl ({inm}) ({b})" if c.op == "<" else f"rs_range ({inm}) ({b})"
+        M = self.loop_state(s.body, env)
+        body = self.render_loop(lst, lambda envb: inm, s.body, env, K, go, s, M)
+        return self.flush(bs, body, K)
+
+    # ---- functions
+    def function(self, owner, name, coq_name, mode="plain", macro=None, self_fields=None, result="value"):
+        """translate `fn name`; result: 'value' (the returned value) | 'fields' (the struct's modelled fields after the call,
+           for `&mut self` methods).  The definition is registered in cfg.defs under its Rust name (`self.name` for methods)."""
+        self.owner, self.mode, self.used_calls, self.ret_type = owner, mode, [], None
+        self.accept, self.extra_binders = None, []
+        self.binds, self.gensym = [[]], 0
+        self.result_mode = result
+        fn = self.m.fn(owner, name, macro)
+        lo, hi = (self.m.macro_fns if macro else self.m.fns)[(macro, owner, name) if macro else (owner, name)]
+        self.idents = {t.text for t in self.src.toks[lo:hi] if t.kind == "id"}
+        self.generic_bounds = {}
+        for g, args, ret in re.findall(r"(\w+):Fn(?:Mut|Once)?\(([^)]*)\)->(\w+)", fn.where + "," + ",".join(fn.generics)):
+            self.generic_bounds[g] = ("fn", tuple(self.ty_of_rust(a, fn) for a in args.split(",") if a), self.ty_of_rust(ret, fn))
+        env, binders = {}, []
+        fields = []
+        if fn.has_self:
+            st = self.m.structs.get(owner)
+            if st is None: raise self.fail(fn, f"struct `{owner}` not found in this file")
+            for f, ty in st:
+                if self_fields is not None and f not in self_fields: continue
+                try: t = self.ty_of_rust(ty)
+                except Unsupported:
+                    if self_fields is not None: raise
+                    continue
+                nm = self.ident(f); env["self." + f] = (nm, t); binders.append((nm, t)); fields.append("self." + f)
+        for p, ty, tok in fn.params:
+            t = self.ty_of_rust(ty, tok); nm = self.ident(p, env, p)
+            env[p] = (nm, t); binders.append((nm, t))
+        def result_of(envr, val, where):
+            if result == "fields":
+                s = "(" + ", ".join(envr[f][0] for f in fields) + ")" if len(fields) != 1 else envr[fields[0]][0]
+                self.ret_type = ("tup", tuple(envr[f][1] for f in fields)) if len(fields) != 1 else envr[fields[0]][1]
+            else:
+                if val is None: raise self.fail(where, "the function can end without a value")
+                s = val[0]; self.ret_seen(val[1], where)
+            return s
+        def render(m):
+            K = Ctx(self, "fn", m, result=lambda envr, val, where: (f"Some ({result_of(envr, val, where)})" if m == "opt" else result_of(envr, val, where)))
+            return self.seq(fn.body.stmts, fn.body.tail, env, K, fn.body)
+        m, body = self.with_modes(["total", "opt"], render)
+        self.partial = (m == "opt")
+        if fn.ret is not None and result == "value":
+            rt = fn.ret.replace(" ", "")
+            try: want = self.ty_of_rust(rt, fn)
+            except Unsupported: want = None
+            if want is not None and not self.same_type(want, self.ret_type): raise self.fail(fn, "declared result type differs from the inferred one")
+        callb = []
+        for cq, argt, rt in list(self.cfg.calls.values()):
+            if cq in self.used_calls and cq not in [c for c, _ in callb]:
+                callb.append((cq, " -> ".join(self.cty_a(a) for a in list(argt) + [rt])))
+        pre = "{T : Type} (O : Ops T)" + "".join(f" ({c} : {ty})" for c, ty in callb)
+        sig = pre + "".join(f" ({b} : {self.cty(t)})" for b, t in binders)
+        rty = self.cty(self.ret_type)
+        text = f"Definition {coq_name} {sig} : {f'option {self.cty_a(self.ret_type)}' if self.partial else rty} :=\n  {body}."
+        key = ("self." + name) if fn.has_self else name
+        argt = [t for _, t in binders]
+        self.cfg.defs[key] = (coq_name + " O" + "".join(f" {c}" for c, _ in callb), argt[len(fields):] if fn.has_self else argt, self.ret_type, self.partial, [c for c, _ in callb], list(fields))
+        self.last_fields = fields
+        return Translated(coq_name, text, sig, mode, list(self.used_calls), list(self.notes))
+
+
+    def fragment(self, owner, name, coq_name, anchor, count, inputs, result_var, macro=None):
+        """translate `count` consecutive statements of `fn name`, starting at the first statement (searched through nested
+           blocks and loop bodies, in source order) whose text starts with `anchor` (white space normalised); the free variables
+           are `inputs` = [(Rust name, type)], the result is the final value of the local `result_var`.  Anything the
+           fragment reads that is not an input stops the translator (unknown name)."""
+        self.owner, self.mode, self.used_calls, self.ret_type = owner, "plain", [], None
+        self.accept, self.extra_binders = None, []
+        self.binds, self.gensym = [[]], 0
+        self.result_mode = "value"
+        self.generic_bounds = {}
+        fn = self.m.fn(owner, name, macro)
+        lo, hi = (self.m.macro_fns if macro else self.m.fns)[(macro, owner, name) if macro else (owner, name)]
+        self.idents = {t.text for t in self.src.toks[lo:hi] if t.kind == "id"}
+        norm = lambda n: " ".join(self.src.text[n.pos:n.end].split())
+        want = " ".join(anchor.split())
+        def find(b):
+            for i, st in enumerate(b.stmts):
+                if norm(st).startswith(want): return b.stmts, i
+                for sub in self.sub_blocks(st):
+                    r = find(sub)
+                    if r is not None: return r
+            return None
+        hit = find(fn.body)
+        if hit is None: raise self.fail(fn, f"`{name}`: no statement starting with `{want}`")
+        stmts, i = hit
+        if i + count > len(stmts): raise self.fail(stmts[i], f"`{name}`: fewer than {count} statements from `{want}` on")
+        env, binders = {}, []
+        for p, t in inputs:
+            nm = self.ident(p, env, p); env[p] = (nm, t); binders.append((nm, t))
+        last = stmts[i + count - 1]
+        def result_of(envr, val, where):
+            if result_var not in envr: raise self.fail(last, f"`{result_var}` is not a local of the fragment")
+            self.ret_seen(envr[result_var][1], where)
+            return envr[result_var][0]
+        def render(m):
+            K = Ctx(self, "fn", m, result=lambda envr, val, where: (f"Some ({result_of(envr, val, where)})" if m == "opt" else result_of(envr, val, where)))
+            return self.seq(list(stmts[i:i + count]), None, env, K, last)
+        m, body = self.with_modes(["total", "opt"], render)
+        self.partial = (m == "opt")
+        callb = []
+        for cq, argt, rt in list(self.cfg.calls.values()):
+            if cq in self.used_calls and cq not in [c for c, _ in callb]:
+                callb.append((cq, " -> ".join(self.cty_a(a) for a in list(argt) + [rt])))
+        pre = "{T : Type} (O : Ops T)" + "".join(f" ({c} : {ty})" for c, ty in callb)
+        sig = pre + "".join(f" ({b} : {self.cty(t)})" for b, t in binders)
+        rty = f"option {self.cty_a(self.ret_type)}" if self.partial else self.cty(self.ret_type)
+        src_txt = " ".join(norm(st) for st in stmts[i:i + count])
+        text = f"(* fragment of `{name}`: {src_txt.replace('*)', '* )')} *)\nDefinition {coq_name} {sig} : {rty} :=\n  {body}."
+        return Translated(coq_name, text, sig, "plain", list(self.used_calls), list(self.notes))
+
+    @staticmethod
+    def sub_blocks(st):
+        """the blocks nested in a statement, in source order"""
+        out = []
+        def ex(e):
+            if e is None: return
+            if e.kind == "block": out.append(e)
+            elif e.kind in ("if", "iflet"):
+                out.append(e.th); ex(e.el)
+            elif e.kind in ("paren", "ref"): ex(e.e)
+        if st.kind in ("for", "while"): out.append(st.body)
+        elif st.kind == "semi": ex(st.e)
+        elif st.kind == "let": ex(st.e)
+        return out
+
+
+LOOPS_PRELUDE = """From Coq Require Import ZArith QArith Floats List Bool.
+From Compute Require Import Base.Ops Base.ListMat Base.RsExpr.
+Import ListNotations.
+Local Close Scope Q_scope.
+Local Open Scope list_scope.
+"""
+
+
+def loops_header(tool, sources):
+    return (f"(* GENERATED by {tool} (statement-level translator, LoopTranslator of tools/rsexpr.py) from {', '.join(sources)}. Do not edit.\n"
+            "   Each definition is the body of the Rust function of the same name, statement for statement: slices are lists, indices\n"
+            "   and lengths are in Z, a panic (assert!, out-of-bounds index, zero divisor) is None, loops are folds over lists. *)\n" + LOOPS_PRELUDE)
+
+
 PRELUDE = """From Coq Require Import ZArith QArith Floats List Bool.
 From Compute Require Import Base.Ops Base.RsExpr.
 Import ListNotations.
@@ -1134,6 +2409,59 @@ _NEG = [   # (Rust, fragment the error must mention): everything outside the sub
     ("fn f(x: f64) -> f64 { x.powi(2.) }", "powi exponent"),
 ]
 
+_LPOS = [   # statement-level translator (LoopTranslator): (Rust, expected Gallina body)
+    ('fn f(x: &[f64]) -> f64 { let mut s = 0.; for v in x.iter() { s += v; } s }',
+     'let s := zero O in let s := fold_left (fun s v => let s := add O (s) (v) in s) (x) s in s'),
+    ('fn f(x: &[f64]) -> f64 { let mut s = 0.; for i in 0..x.len() { s += x[i]; } s }',
+     'let s := zero O in let* s := rs_fold_opt (fun s i => let* g1 := rs_get (x) (i) in let s := add O (s) (g1) in Some s) (rs_range_excl (0%Z) (rs_len (x))) s in Some (s)'),
+    ('fn f(x: &[f64]) -> f64 { x.iter().map(|v| v * 2.).sum::<f64>() }',
+     'rs_iter_sum O (map (fun v => mul O (v) (two O)) (x))'),
+    ('fn f(x: &[f64]) -> f64 { x.iter().fold(0., |a, v| a + v) }',
+     'fold_left (fun a v => add O (a) (v)) (x) (zero O)'),
+    ('fn f(x: &[f64], t: f64) -> usize { let mut k = 0; for v in x.iter() { if *v > t { break; } k += 1; } k }',
+     'let k := 0%Z in match rs_loop (R := unit) (fun k v => if ltb O (t) (v) then rs_break k else let k := Z.add (k) (1%Z) in rs_next k) (x) k with | rs_next k | rs_break k => Some (k) | rs_return r1 => None | rs_panic => None end'),
+    ('fn f(x: &[f64]) -> f64 { for v in x.iter() { if *v > 0. { return *v; } } 0. }',
+     'match rs_loop (fun _ v => if ltb O (zero O) (v) then rs_return (v) else rs_next tt) (x) tt with | rs_next _ | rs_break _ => Some (zero O) | rs_return r1 => Some (r1) | rs_panic => None end'),
+    ('fn f(n: usize) -> usize { let mut i = 0; let mut s = 0; while i < n { s += i; i += 1; } s }',
+     "let i := 0%Z in let s := 0%Z in let '(i, s) := fold_left (fun '(i, s) i => let s := Z.add (s) (i) in let i := Z.add (i) (1%Z) in (i, s)) (rs_range_excl (i) (n)) (i, s) in s"),
+    ('fn f(x: &[f64]) -> Vec<f64> { let mut v = Vec::with_capacity(x.len()); for a in x.iter() { v.push(a * a); } v }',
+     'let v := [] in let v := fold_left (fun v a => let v := v ++ [mul O (a) (a)] in v) (x) v in v'),
+    ('fn f(n: usize) -> Vec<f64> { let mut v = vec![0.; n]; for i in 0..n { v[i] = i as f64; } v }',
+     'let* l1 := rs_vec_alloc (zero O) (n) in let v := l1 in let* v := rs_fold_opt (fun v i => let* l2 := rs_set (v) (i) (ofZ O (i)) in let v := l2 in Some v) (rs_range_excl (0%Z) (n)) v in Some (v)'),
+    ('fn f(n: usize) -> f64 { (n - 1) as f64 }',
+     'ofZ O (rs_usub (n) (1%Z))'),
+    ('fn f(x: &[f64], y: &[f64]) -> f64 { let mut s = 0.; let mut c = 0.; for (i, (a, b)) in x.iter().zip(y.iter()).enumerate() { s += a * b; c = i as f64; } s / c }',
+     "let s := zero O in let c := zero O in let '(s, c) := fold_left (fun '(s, c) '(i, (a, b)) => let s := add O (s) (mul O (a) (b)) in let c := ofZ O (i) in (s, c)) (rs_enumerate (combine (x) (y))) (s, c) in div O (s) (c)"),
+    ('fn f(x: &[f64]) -> f64 { let mut m = x[0]; for v in x.iter() { if *v > m { m = *v; } } m }',
+     'let* g1 := rs_get (x) (0%Z) in let m := g1 in let m := fold_left (fun m v => if ltb O (m) (v) then let m := v in m else m) (x) m in Some (m)'),
+    ('fn f(x: &[f64], k: usize) -> f64 { assert!(k <= x.len()); x[k..].iter().product() }',
+     'if Z.leb (k) (rs_len (x)) then let* sl1 := rs_slice_from (x) (k) in Some (rs_iter_product O (sl1)) else None'),
+    ('fn f(a: usize, b: usize) -> usize { a / b + a % 8 }',
+     'let* g1 := rs_idiv (a) (b) in Some (Z.add (g1) (Z.rem (a) (8%Z)))'),
+    ('fn f<F>(g: F, n: usize) -> f64 where F: Fn(f64) -> f64 { (1..=n).map(|k| g(k as f64)).sum() }',
+     'rs_iter_sum O (map (fun k => g (ofZ O (k))) (rs_range (1%Z) (n)))'),
+    ('fn f(t: (usize, f64)) -> f64 { let (mut c, m) = t; c += 1; m / c as f64 }',
+     "let '(c, m) := t in let c := Z.add (c) (1%Z) in div O (m) (ofZ O (c))"),
+]
+_LNEG = [   # (Rust, fragment the refusal must mention)
+    ('fn f(x: &[f64]) -> f64 { let mut k = 5; k -= 1; x[k] }', 'signedness is not known'),
+    ('fn f(x: &[f64]) -> f64 { let mut s = 0.; for v in x.iter() { s += v; let s = 1.; } s }', 'shadows `s`'),
+    ('fn f(x: &[f64]) -> f64 { let mut s = 0.; let mut i = 0; while s < 1. { s += x[i]; i += 1; } s }', 'explicit integer counter'),
+    ('fn f(x: &[f64]) -> f64 { match x.len() { _ => 0. } }', '`match`'),
+    ('fn f(m: &Matrix) -> f64 { m[[0, 0]] }', 'type `Matrix`'),
+    ('fn f(x: &[f64]) -> f64 { x.iter().filter(|v| **v > 0.).sum() }', '`.filter`'),
+    ('fn f(x: &[f64]) -> f64 { let mut s = 0.; x.iter().for_each(|v| s += v); s }', 'expected'),
+    ('fn f(x: &[f64]) -> f64 { let y = &x[1..=2]; y[0] }', 'inclusive slice range'),
+    ('fn f(x: &[f64]) -> f64 { loop { } }', 'loop'),
+    ('fn f(x: &[f64]) -> f64 { let mut i = 0; let mut s = 0.; while i < x.len() { if x[i] < 0. { continue; } s += x[i]; i += 1; } s }', '`continue`'),
+    ('fn f(x: &[f64]) -> f64 { let mut i = 0; let mut s = 0.; while i < x.len() { i += 2; s += x[i]; i += 1; } s }', 'assigned elsewhere'),
+    ('fn f(x: &[f64]) -> f64 { y[0] }', 'unknown name'),
+    ('fn f(x: &[f64]) -> f64 { for v in x.iter() { } }', 'can end without a value'),
+    ('fn f(x: &[f64]) -> f64 { x[0.5] }', 'index must be an integer'),
+    ('fn f(x: &[f64]) -> f64 { let mut s = 0.; for v in x.iter() { s += v; break 1.; } s }', '`break` with a value'),
+    ('fn f(x: &[f64]) -> f64 { unsafe { *x.get_unchecked(0) } }', '`unsafe`'),
+]
+
 
 def selftest():
     """cheap regression test of the translator itself; every target runs it before translating"""
@@ -1154,7 +2482,18 @@ def selftest():
                 raise Unsupported(f"rsexpr self-test: `{rust}` was refused with an unexpected message: {ex}")
             continue
         raise Unsupported(f"rsexpr self-test: `{rust}` is outside the subset but was translated")
-    return len(_POS) + len(_POS_SELF) + len(_NEG)
+    for rust, want in _LPOS:
+        got = LoopTranslator(Module("selftest.rs", rust), Config()).function(None, "f", "f").text.split(":=\n  ", 1)[1].rstrip(".")
+        if got != want: raise Unsupported(f"rsexpr self-test (loops): `{rust}` rendered as `{got}`, expected `{want}`")
+    for rust, frag in _LNEG:
+        try:
+            LoopTranslator(Module("selftest.rs", rust), Config()).function(None, "f", "f")
+        except Unsupported as ex:
+            if frag not in str(ex) or not re.search(r"selftest\.rs:\d+:\d+", str(ex)):
+                raise Unsupported(f"rsexpr self-test (loops): `{rust}` was refused with an unexpected message: {ex}")
+            continue
+        raise Unsupported(f"rsexpr self-test (loops): `{rust}` is outside the subset but was translated")
+    return len(_POS) + len(_POS_SELF) + len(_NEG) + len(_LPOS) + len(_LNEG)
 
 
 
